@@ -1,13 +1,20 @@
-(* The side conditions of C01/C04 DISCHARGED for instances whose machine post-buffers are unordered (FLEX - the
-   compiler's default): with such buffers no AGV ever waits on a TimeDependency, so every -> TRANSIT transition
-   the simulator applies was created by create_timed_transitions in the first state of the current batch for
-   the AGV's own claim and a job lying in a post- or standalone buffer; the transitions applied before it in
+(* The side conditions of C01/C04 DISCHARGED for every instance: every -> TRANSIT transition the simulator applies
+   names the AGV's own claim and a job lying in a post- or standalone buffer; the transitions applied before it in
    the same batch (other components, each at most once) can neither change that AGV's claim nor carry the job
-   into a machine. Hence: job not in process, job = the claim - for every applied transition of every run. *)
+   into a machine. Hence: job not in process, job = the claim - for every applied transition of every run.
+   A -> TRANSIT transition is either created by create_timed_transitions in the first state of the current batch, or
+   re-issued from a TimeDependency stored in the AGV's occupied_till (ordered post-buffers). The invariant DEPI says
+   that a stored dependency is the AGV's OWN transition for its own claim, the claimed job lying in the post-buffer
+   BEHIND the blocking job (so it is not the job the buffer releases next, and `_get_waiting_time` never copies a
+   dependency from another AGV); it survives because the blocking job cannot leave the buffer while an AGV depends
+   on it: once the blocking job is claimed, the dependency is re-issued and refreshed in the very next batch, before
+   the claiming AGV - which is still on its way to the pickup point - can take the job (batch invariant Qdep,
+   between-batches fact BI). *)
 From Coq Require Import List ZArith Bool Arith Lia.
 From JSL Require Import Base.Res Base.ListX SM.Types SM.Util SM.Handler SM.Step SM.Middleware SM.Inv
   SMP.ListLemmas SMP.Frame SMP.WF SMP.Preserve SMP.StepInv SMP.Clock SMP.ClockStep SMP.ClockMain SMP.Post SMP.PostApply
-  SMP.LiftSide SMP.FeasView SMP.Feasible SMP.FeasSound SMP.Agv SMP.OutputDone SMP.Offers SMP.Unique SMP.Reflect SMP.Prov SMP.LiftProv.
+  SMP.LiftSide SMP.FeasView SMP.Feasible SMP.FeasSound SMP.Agv SMP.OutputDone SMP.Offers SMP.Unique SMP.Reflect
+  SMP.DepLists SMP.Prov SMP.StoreEff SMP.LiftProv.
 Import ListNotations.
 Close Scope Z_scope.
 
@@ -21,19 +28,17 @@ Definition no_dep (oc : occ) : Prop := match oc with ODep _ _ _ => False | _ => 
 Definition NODEP (x : state) : Prop := forall t st oc jb, tc x t = Some (st, oc, jb) -> no_dep oc.
 
 Lemma index_of_In j l : In j l -> exists p, index_of j l = Some p /\ p < length l.
-Proof.
-  induction l as [|h r IH]; intros H; [destruct H|]. simpl.
-  destruct (Nat.eqb_spec j h) as [->|Hn].
-  - exists 0. rewrite Nat.eqb_refl. split; [reflexivity|simpl; lia].
-  - destruct H as [H|H]; [congruence|]. destruct (IH H) as [p [Hp Hl]]. rewrite Hp. exists (S p).
-    assert (Hn' : (h =? j) = false) by (apply Nat.eqb_neq; congruence). rewrite Hn'. split; [reflexivity|simpl; lia].
-Qed.
+Proof. apply index_of_in. Qed.
+
+Lemma comp_eq_dec (a b : comp) : {a = b} + {a <> b}.
+Proof. decide equality; apply Nat.eq_dec. Qed.
+
+Definition wkind (tr : transition) : Prop := tr_new tr = NT TWaiting \/ tr_new tr = NT TTransit.
 
 Section PB.
 Variable sigma : oracle.
 Variable i : inst.
 Hypothesis Hnn : inst_nonneg_b i = true.
-Hypothesis Hflex : flex_post_b i = true.
 
 (* ---------- where a stored job is ---------- *)
 Lemma stored_loc x A a j : WFS i x -> get_buf x A = Some a -> In j (b_store a) -> jloc x j = Some A.
@@ -44,7 +49,855 @@ Proof.
   rewrite (jloc_of _ _ _ Ej). f_equal. eapply (ws_unique i); eauto.
 Qed.
 
-(* ---------- no TimeDependency with unordered post-buffers ---------- *)
+Lemma ws_nodup x L b : WFS i x -> get_buf x L = Some b -> NoDup (b_store b).
+Proof.
+  intros W Hb. apply count_le_one_NoDup. intros j.
+  destruct (le_lt_dec (length (s_jobs x)) j) as [Hge|Hlt].
+  - destruct (count_nat j (b_store b)) eqn:Ec; [lia|]. exfalso.
+    assert (Hin : In j (b_store b)) by (apply mem_nat_In; apply mem_count; lia).
+    pose proof (ws_range _ _ W _ _ _ Hb Hin). lia.
+  - pose proof (ws_count _ _ W j Hlt) as Hc. unfold tcount in Hc.
+    pose proof (sum_in_ge (fun L0 => count_nat j (store_at x L0)) (bids_of x) L (get_buf_in_bids _ _ _ Hb)) as Q0.
+    simpl in Q0. unfold store_at in Q0 at 1. rewrite Hb in Q0. lia.
+Qed.
+
+(* ---------- the time-dependency invariant ---------- *)
+Definition DEPI (x : state) : Prop := forall t st b k d jb, tc x t = Some (st, ODep b k d, jb) ->
+  st = TWaiting /\ exists j m ms mc, jb = Some j /\ b = BPost m /\ nth_error (s_machs x) m = Some ms /\ nth_error (i_machs i) m = Some mc
+    /\ tr_comp d = CT t /\ tr_job d = Some j /\ wkind d /\ rel_ok (bc_type (mc_post mc)) (b_store (m_post ms)) k j.
+
+Lemma NODEP_DEPI x : NODEP x -> DEPI x.
+Proof. intros D t st b k d jb H. destruct (D _ _ _ _ H). Qed.
+
+Lemma DEPI_set_now x z : DEPI x -> DEPI (set_now x z).
+Proof. intros D t st b k d jb H. rewrite tc_set_now in H. exact (D _ _ _ _ _ _ H). Qed.
+
+Lemma post_bst x m ms : nth_error (s_machs x) m = Some ms -> bst x (BPost m) = Some (b_store (m_post ms)).
+Proof. intros H. unfold bst. simpl. rewrite H. reflexivity. Qed.
+
+Lemma bst_post_inv x m l : bst x (BPost m) = Some l -> exists ms, nth_error (s_machs x) m = Some ms /\ b_store (m_post ms) = l.
+Proof. unfold bst. simpl. destruct (nth_error (s_machs x) m) as [ms|]; simpl; intros H; inversion H. eauto. Qed.
+
+
+Lemma opt_nat_eqb_eq a j : opt_nat_eqb a (Some j) = true -> a = Some j.
+Proof. destruct a as [n|]; simpl; intros H; [apply Nat.eqb_eq in H; congruence|discriminate]. Qed.
+
+Lemma next_in b ty n : get_next_job_from_buffer b ty = Some n -> In n (b_store b).
+Proof.
+  unfold get_next_job_from_buffer. destruct (b_store b) as [|h t]; [discriminate|]. destruct ty; intros H; inversion H; subst.
+  - left; reflexivity.
+  - apply last_in.
+  - left; reflexivity.
+Qed.
+
+Definition unclaimed (x : state) (k : nat) : Prop := forall t st oc, tc x t <> Some (st, oc, Some k).
+
+(* the waiting time is a TimeDependency only on the handled transition itself, for a job that lies in a machine's ordered
+   post-buffer behind the job the buffer releases next, which no AGV has claimed *)
+Lemma waiting_time_dep x tr j b k d :
+  WFS i x -> DEPI x -> tr_job tr = Some j -> get_waiting_time i x tr = Ok (ODep b k d) ->
+  d = tr /\ unclaimed x k /\ exists m ms mc, b = BPost m /\ nth_error (s_machs x) m = Some ms /\ nth_error (i_machs i) m = Some mc
+    /\ rel_ok (bc_type (mc_post mc)) (b_store (m_post ms)) k j.
+Proof.
+  intros W D Hj H. unfold get_waiting_time in H. rewrite Hj in H. simpl in H.
+  destruct (get_job x j) as [jb|] eqn:Ej; simpl in H; [|discriminate]. apply get_job_ok in Ej.
+  destruct (get_bcfg i (j_loc jb)) as [c|] eqn:Ec; simpl in H; [|discriminate].
+  assert (Mcase : forall m, (j_loc jb = BPre m \/ j_loc jb = BIn m \/ j_loc jb = BPost m) ->
+     (ms <- get_mach x m ;;
+      if mem_nat j (b_store (m_post ms)) then
+        rdy <- is_ready i x j jb ;;
+        if rdy : bool then Ok (OAt (s_now x))
+        else
+          nxt <- of_opt EInvalidValue (get_next_job_from_buffer (m_post ms) (bc_type c)) ;;
+          let ts := first_transport_with_job x nxt in
+          njb <- get_job x nxt ;;
+          if job_is_done i njb then Ok (OAt (s_now x))
+          else match ts with
+               | None => Ok (ODep (j_loc jb) nxt tr)
+               | Some t => Ok (t_occ t)
+               end
+      else
+        k <- of_opt EMissingProc (first_proc jb) ;;
+        o <- of_opt EMissingProc (nth_error (j_ops jb) k) ;;
+        Ok (occ_of_time (o_end o))) = Ok (ODep b k d) ->
+     d = tr /\ unclaimed x k /\ exists m ms mc, b = BPost m /\ nth_error (s_machs x) m = Some ms /\ nth_error (i_machs i) m = Some mc
+       /\ rel_ok (bc_type (mc_post mc)) (b_store (m_post ms)) k j).
+  { intros m Hloc Hm. unfold get_mach in Hm.
+    destruct (nth_error (s_machs x) m) as [ms|] eqn:E2; simpl in Hm; [|discriminate].
+    destruct (mem_nat j (b_store (m_post ms))) eqn:Emem.
+    - apply mem_nat_In in Emem.
+      assert (Hpost : get_buf x (BPost m) = Some (m_post ms)) by (simpl; rewrite E2; reflexivity).
+      pose proof (stored_loc _ _ _ _ W Hpost Emem) as Hl. rewrite (jloc_of _ _ _ Ej) in Hl. inversion Hl as [Hl'].
+      rewrite Hl' in Ec. simpl in Ec. destruct (nth_error (i_machs i) m) as [mc|] eqn:Emc; [|discriminate]. inversion Ec; subst c.
+      pose proof (ws_nodup _ _ _ W Hpost) as ND.
+      destruct (is_ready i x j jb) as [rdy|] eqn:Er; simpl in Hm; [|discriminate]. destruct rdy; [discriminate|].
+      destruct (get_next_job_from_buffer (m_post ms) (bc_type (mc_post mc))) as [nxt|] eqn:En; simpl in Hm; [|discriminate].
+      destruct (get_job x nxt) as [njb|]; simpl in Hm; [|discriminate].
+      destruct (job_is_done i njb); [discriminate|].
+      assert (Hrel : rel_ok (bc_type (mc_post mc)) (b_store (m_post ms)) nxt j).
+      { apply not_ready_rel; auto. unfold is_ready in Er. rewrite Hl', Hpost in Er. simpl in Er. rewrite Emc in Er. simpl in Er.
+        destruct (is_correct_position (index_of j (b_store (m_post ms))) (length (b_store (m_post ms))) (bc_type (mc_post mc))) as [cp|]; simpl in Er; [|discriminate].
+        inversion Er; subst. reflexivity. }
+      destruct (first_transport_with_job x nxt) as [t2|] eqn:Ef.
+      + (* a copy would be another AGV's dependency - but that AGV's claim is the job the buffer releases next *)
+        exfalso. unfold first_transport_with_job in Ef. apply find_some in Ef. destruct Ef as [Hin2 Hj2]. apply opt_nat_eqb_eq in Hj2.
+        inversion Hm as [Ho2]. apply In_nth_error in Hin2. destruct Hin2 as [t' Ht'].
+        pose proof (tc_of _ _ _ Ht') as Htc. rewrite Ho2, Hj2 in Htc.
+        destruct (D _ _ _ _ _ _ Htc) as [_ [j2 [m2 [ms2 [mc2 [Ej2 [Eb [Hms2 [Hmc2 [_ [_ [_ R2]]]]]]]]]]]]. inversion Ej2; subst j2.
+        assert (Hpost2 : get_buf x (BPost m2) = Some (m_post ms2)) by (simpl; rewrite Hms2; reflexivity).
+        assert (Em : BPost m2 = BPost m).
+        { apply (ws_unique i x (BPost m2) (BPost m) (m_post ms2) (m_post ms) nxt W Hpost2 (proj2 (rel_in _ _ _ _ R2)) Hpost (next_in _ _ _ En)). }
+        inversion Em; subst m2. rewrite E2 in Hms2. inversion Hms2; subst ms2. rewrite Emc in Hmc2. inversion Hmc2; subst mc2.
+        apply (rel_not_next _ _ _ _ ND R2). exact En.
+      + inversion Hm; subst. split; [reflexivity|]. split.
+        * intros t st oc Htc. unfold tc in Htc. destruct (nth_error (s_trans x) t) as [ts|] eqn:Ets; [|discriminate]. simpl in Htc. inversion Htc.
+          unfold first_transport_with_job in Ef. pose proof (find_none _ _ Ef ts (nth_error_In _ _ Ets)) as Hf. simpl in Hf.
+          match goal with E' : t_job ts = Some _ |- _ => rewrite E' in Hf end. simpl in Hf. rewrite Nat.eqb_refl in Hf. discriminate.
+        * exists m, ms, mc. rewrite Hl'. auto.
+    - destruct (first_proc jb) as [k0|]; simpl in Hm; [|discriminate].
+      destruct (nth_error (j_ops jb) k0) as [o|]; simpl in Hm; [|discriminate].
+      destruct (o_end o); discriminate. }
+  destruct (j_loc jb) as [n|m|m|m|t] eqn:El.
+  - discriminate.
+  - apply (Mcase m); auto.
+  - apply (Mcase m); auto.
+  - apply (Mcase m); auto.
+  - discriminate.
+Qed.
+
+
+(* the acting AGV's new (phase, occupied_till, claim), with the phase where it matters *)
+Lemma apply_tc_self2 x tr x' t ts :
+  apply_transition sigma i x tr = Ok x' -> tr_comp tr = CT t -> nth_error (s_trans x) t = Some ts ->
+  exists st oc jb, tc x' t = Some (st, oc, jb)
+    /\ ((exists z, oc = OAt z) \/ (oc = t_occ ts /\ t_st ts = TOutage)
+        \/ (get_waiting_time i x tr = Ok oc /\ wkind tr /\ st = TWaiting /\ jb = t_job ts /\ (exists j, tr_job tr = Some j)
+            /\ forall L, bst x' L = bst x L)).
+Proof.
+  intros H Hc Hts.
+  destruct (apply_transport sigma i _ _ _ _ _ Hc Hts H) as [[Hst [Hnw C]]|[[_ [Hnw C]]|[[_ [Hnw C]]|[[_ [_ C]]|[[Hst [_ C]]|[_ [Hnw C]]]]]]].
+  - unfold h_t_idle_working in C. inv_all C. inversion C; subst; clear C.
+    rewrite tc_set_trans_ctl, Nat.eqb_refl, (tc_of _ _ _ Hts). simpl. do 3 eexists. split; [reflexivity|]. left. eauto.
+  - unfold h_t_pickup_waiting in C. inv_all C. inversion C; subst; clear C.
+    match goal with E' : of_opt _ (tr_job tr) = Ok ?jn |- _ => apply of_opt_ok in E'; rename E' into Ej end.
+    rewrite tc_set_trans_ctl, Nat.eqb_refl, (tc_of _ _ _ Hts). simpl. do 3 eexists. split; [reflexivity|].
+    right; right. unfold wkind. split; auto. split; auto. split; auto. split; auto. split; [eauto|]. intros L. apply bst_set_trans_ctl.
+  - destruct (post_to_transit sigma i _ _ _ _ _ Hts C) as [j [jb [sb [sc [Hj [Hjb [Hsb [Hsc _]]]]]]]].
+    unfold h_t_to_transit in C. rewrite Hj in C. simpl in C. unfold get_job in C. rewrite Hjb in C. simpl in C.
+    rewrite Hsb, Hsc in C. simpl in C. inv1 C. inv1 C.
+    { unfold h_t_waiting_waiting in C. inv_all C. inversion C; subst; clear C.
+      rewrite tc_set_trans_ctl, Nat.eqb_refl, (tc_of _ _ _ Hts). simpl. do 3 eexists. split; [reflexivity|].
+      right; right. unfold wkind. split; auto. split; auto. split; auto. split; auto. split; [eauto|]. intros L. apply bst_set_trans_ctl. }
+    inv_all C. inversion C; subst; clear C.
+    assert (Hn2 : j_loc jb <> BAgv t) by (intros Eq; rewrite Eq in *; discriminate).
+    match goal with E' : move_job _ _ _ _ _ = Ok ?y |- _ => pose proof (move_job_moved i _ _ _ _ _ Hn2 E') as M end.
+    rewrite tc_with_sto, tc_set_trans_ctl, Nat.eqb_refl, (tc_moved i _ _ _ _ _ t M), (tc_of _ _ _ Hts). simpl.
+    do 3 eexists. split; [reflexivity|]. left. eauto.
+  - unfold h_t_transit_outage in C. inv_all C. inversion C; subst; clear C.
+    match goal with E' : move_job _ _ _ (BAgv t) ?B = Ok ?y |- _ =>
+      assert (Hn2 : BAgv t <> B) by
+        (match goal with E'' : match ?d with PM _ => _ | PB _ => _ | PT _ => _ end = Ok B |- _ =>
+           destruct d; inv_all E''; inversion E''; subst; congruence end);
+      pose proof (move_job_moved i _ _ _ _ _ Hn2 E') as M end.
+    rewrite tc_with_sto, tc_set_trans_ctl, Nat.eqb_refl, (tc_moved i _ _ _ _ _ t M), (tc_of _ _ _ Hts). simpl.
+    do 3 eexists. split; [reflexivity|]. left. eauto.
+  - unfold h_t_outage_idle in C. inversion C; subst; clear C.
+    rewrite tc_set_trans_ctl, Nat.eqb_refl, (tc_of _ _ _ Hts). simpl. do 3 eexists. split; [reflexivity|]. right; left. auto.
+  - unfold h_t_waiting_waiting in C. inv_all C. inversion C; subst; clear C.
+    rewrite tc_set_trans_ctl, Nat.eqb_refl, (tc_of _ _ _ Hts). simpl. do 3 eexists. split; [reflexivity|].
+    right; right. unfold wkind. split; auto. split; auto. split; auto. split; auto. split; [|intros L; apply bst_set_trans_ctl].
+    unfold get_waiting_time in *. destruct (tr_job tr) as [j|]; [eauto|].
+    match goal with E' : bind (of_opt _ None) _ = Ok _ |- _ => simpl in E'; discriminate end.
+Qed.
+
+
+(* ---------- DEPI survives every applied transition ---------- *)
+Theorem apply_preserves_DEPI x tr x' :
+  WFS i x -> DEPI x ->
+  (forall t, tr_comp tr = CT t -> wkind tr -> exists j st oc, tr_job tr = Some j /\ tc x t = Some (st, oc, Some j)) ->
+  (forall t0 j0, tr_comp tr = CT t0 -> tr_new tr = NT TTransit -> tr_job tr = Some j0 ->
+     forall t st b d jb, tc x t <> Some (st, ODep b j0 d, jb)) ->
+  apply_transition sigma i x tr = Ok x' -> DEPI x'.
+Proof.
+  intros W D Hclaim Hpick H t st b k d jb Htc'.
+  destruct (comp_eq_dec (tr_comp tr) (CT t)) as [Hc|Hn].
+  - (* the acting AGV *)
+    destruct (nth_error (s_trans x) t) as [ts|] eqn:Hts; [|unfold apply_transition in H; rewrite Hc, Hts in H; discriminate].
+    destruct (apply_tc_self2 _ _ _ _ _ H Hc Hts) as [st' [oc' [jb' [E [[z Hz]|[[Ho Hst]|[Hw [Hk [Es [Ej [[j Hj] Hb]]]]]]]]]]];
+      rewrite E in Htc'; inversion Htc' as [[I1 I2 I3]].
+    + rewrite Hz in I2. discriminate.
+    + exfalso. pose proof (tc_of _ _ _ Hts) as Htc. rewrite <- Ho, I2 in Htc. destruct (D _ _ _ _ _ _ Htc) as [Ew _]. congruence.
+    + rewrite I2 in Hw. subst st' jb'.
+      destruct (waiting_time_dep _ _ _ _ _ _ W D Hj Hw) as [-> [_ [m [ms [mc [-> [Hms [Hmc R]]]]]]]].
+      destruct (Hclaim t Hc Hk) as [j' [st0 [oc0 [Hj' Htc0]]]]. rewrite Hj in Hj'. inversion Hj'; subst j'.
+      rewrite (tc_of _ _ _ Hts) in Htc0. inversion Htc0 as [[A1 A2 A3]].
+      split; [symmetry; exact I1|]. pose proof (Hb (BPost m)) as Hp. rewrite (post_bst _ _ _ Hms) in Hp.
+      destruct (bst_post_inv _ _ _ Hp) as [ms' [Hms' El]].
+      exists j, m, ms', mc. rewrite El. rewrite <- I3, A3. repeat split; auto.
+  - (* another component acts: the AGV's triple stays, the post-buffer may gain a job at the back or lose the job it releases *)
+    rewrite (apply_tc_other sigma i _ _ _ t H Hn) in Htc'.
+    destruct (D _ _ _ _ _ _ Htc') as [Es [j [m [ms [mc [Ej [Eb [Hms [Hmc [Hcd [Hjd [Hk R]]]]]]]]]]]].
+    split; [exact Es|].
+    assert (Hpost : get_buf x (BPost m) = Some (m_post ms)) by (simpl; rewrite Hms; reflexivity).
+    assert (Goal : exists ms', nth_error (s_machs x') m = Some ms' /\ rel_ok (bc_type (mc_post mc)) (b_store (m_post ms')) k j).
+    { destruct (apply_store_eff sigma i _ _ _ H) as [Same|[j1 [A [B [Hne [HA [HB [Hoth Hkind]]]]]]]].
+      - pose proof (Same (BPost m)) as Hp. rewrite (post_bst _ _ _ Hms) in Hp. destruct (bst_post_inv _ _ _ Hp) as [ms' [Hms' El]].
+        exists ms'. rewrite El. auto.
+      - destruct (bid_eq_dec (BPost m) A) as [EA|NA]; [|destruct (bid_eq_dec (BPost m) B) as [EB|NB]].
+        + (* a job leaves this post-buffer: it is the one at the release position, hence neither k nor j *)
+          subst A. rewrite (post_bst _ _ _ Hms) in HA. simpl in HA. destruct (bst_post_inv _ _ _ HA) as [ms' [Hms' El]].
+          exists ms'. split; auto. rewrite El.
+          destruct Hkind as [[m0 [_ [[E0 _]|[E0 _]]]]|[[t0 [Hc0 [Hn0 [Hj0 [Hl0 _]]]]]|[t0 [_ [_ [E0 _]]]]]]; try discriminate.
+          assert (Hk1 : k <> j1).
+          { intros ->. apply (Hpick t0 j1 Hc0 Hn0 Hj0 t st b d jb). exact Htc'. }
+          assert (Hj1 : j <> j1).
+          { intros ->. destruct (nth_error (s_trans x) t0) as [ts0|] eqn:Hts0; [|unfold apply_transition in H; rewrite Hc0, Hts0 in H; discriminate].
+            destruct (apply_transport sigma i _ _ _ _ _ Hc0 Hts0 H) as [[_ [E0 _]]|[[_ [E0 _]]|[[_ [_ C]]|[[_ [E0 _]]|[[_ [E0 _]]|[_ [E0 _]]]]]]];
+              try (rewrite Hn0 in E0; discriminate).
+            destruct (post_to_transit sigma i _ _ _ _ _ Hts0 C) as [j2 [jb2 [sb [sc [Hj2 [Hjb2 [Hsb [Hsc Hd]]]]]]]].
+            rewrite Hj0 in Hj2. inversion Hj2; subst j2. rewrite (jloc_of _ _ _ Hjb2) in Hl0. inversion Hl0 as [Hl1].
+            rewrite Hl1, Hpost in Hsb. inversion Hsb; subst sb. rewrite Hl1 in Hsc. simpl in Hsc. rewrite Hmc in Hsc. inversion Hsc; subst sc.
+            destruct Hd as [[p [Hp [Hcp Hww]]]|[dst [c [trv [Hcp _]]]]].
+            - (* blocked: nothing moved *)
+              unfold h_t_waiting_waiting in Hww. inv_all Hww. inversion Hww; subst.
+              pose proof (HA) as HA'. rewrite bst_set_trans_ctl, (post_bst _ _ _ Hms) in HA'. simpl in HA'. inversion HA' as [Hrm].
+              assert (Hin : In j1 (b_store (m_post ms))) by (eapply index_of_some_in; eauto).
+              assert (Hnin : ~ In j1 (remove_nat j1 (b_store (m_post ms)))).
+              { unfold remove_nat. intros Hi. apply filter_In in Hi. destruct Hi as [_ Hi]. rewrite Nat.eqb_refl in Hi. discriminate. }
+              rewrite <- Hrm in Hnin. contradiction.
+            - assert (Hin : In j1 (b_store (m_post ms))) by (apply (proj2 (rel_in _ _ _ _ R))).
+              destruct (index_of_in _ _ Hin) as [p [Hp _]]. specialize (Hcp p Hp). rewrite <- Hp in Hcp.
+              assert (Hty : bc_type (mc_post mc) <> Flex) by (intros Ef; rewrite Ef in R; exact R).
+              pose proof (ready_is_next _ _ _ Hin Hcp Hty) as Hnext.
+              apply (rel_not_next _ _ _ _ (ws_nodup _ _ _ W Hpost) R Hnext). }
+          apply rel_remove; auto.
+        + subst B. rewrite (post_bst _ _ _ Hms) in HB. simpl in HB. destruct (bst_post_inv _ _ _ HB) as [ms' [Hms' El]].
+          exists ms'. split; auto. rewrite El. apply rel_app. exact R.
+        + pose proof (Hoth (BPost m) NA NB) as Hp. rewrite (post_bst _ _ _ Hms) in Hp. destruct (bst_post_inv _ _ _ Hp) as [ms' [Hms' El]].
+          exists ms'. rewrite El. auto. }
+    destruct Goal as [ms' [Hms' R']]. exists j, m, ms', mc. repeat split; auto.
+Qed.
+
+(* ---------- the batch invariant ---------- *)
+Definition is_tworking (tr : transition) : bool := match tr_new tr with NT TWorking => true | _ => false end.
+Definition core (R : list transition) : list transition := filter (fun tr => negb (is_tworking tr)) R.
+Definition comps (R : list transition) : list comp := map tr_comp R.
+
+Definition outside (L : bid) : Prop := (forall m, L <> BIn m) /\ (forall m, L <> BPre m) /\ (forall t, L <> BAgv t).
+
+Definition loc_fact (x : state) (R : list transition) (j : nat) : Prop :=
+  (exists L, jloc x j = Some L /\ outside L)
+  \/ (exists t0, jloc x j = Some (BAgv t0) /\ ~ In (CT t0) (comps (core R))).
+
+Definition pend (x : state) (R : list transition) (tr : transition) : Prop :=
+  tr_new tr = NT TTransit ->
+  exists t j oc, tr_comp tr = CT t /\ tr_job tr = Some j /\ tc x t = Some (TWaiting, oc, Some j) /\ loc_fact x R j.
+
+(* a -> WAITING / -> TRANSIT transition names the claim of its AGV, which is on its way to or at the pickup point *)
+Definition pendw (x : state) (tr : transition) : Prop :=
+  wkind tr -> exists t j st oc, tr_comp tr = CT t /\ tr_job tr = Some j /\ tc x t = Some (st, oc, Some j)
+                                /\ (st = TPickup \/ st = TWaiting).
+
+(* the dispatches come last *)
+Definition Qstruct (R : list transition) : Prop :=
+  exists A B, R = A ++ B /\ (forall tr, In tr A -> is_tworking tr = false) /\ (forall tr, In tr B -> is_tworking tr = true).
+
+(* an AGV t depends on job k, AGV t2 has claimed k: either t2 was dispatched a moment ago (only dispatches are left in the
+   batch), or the dependency of t is about to be refreshed in this batch and t2 does not pick anything up in it *)
+Definition Qdep (R : list transition) (x : state) : Prop :=
+  forall t st b k d jb t2 st2 oc2, tc x t = Some (st, ODep b k d, jb) -> tc x t2 = Some (st2, oc2, Some k) ->
+    (st2 = TPickup /\ forall tr, In tr R -> is_tworking tr = true)
+    \/ (In d R /\ forall tr, In tr R -> tr_comp tr = CT t2 -> tr_new tr <> NT TTransit).
+
+(* between two batches: whoever has claimed a job that an AGV depends on has only just been dispatched *)
+Definition BI (x : state) : Prop :=
+  forall t st b k d jb t2 st2 oc2, tc x t = Some (st, ODep b k d, jb) -> tc x t2 = Some (st2, oc2, Some k) -> st2 = TPickup.
+
+Definition Q (R : list transition) (x : state) : Prop :=
+  NoDup (comps (core R)) /\ (forall tr, In tr R -> pend x R tr) /\ (forall tr, In tr R -> pendw x tr) /\ Qstruct R /\ Qdep R x.
+
+Definition J (x : state) : Prop := WFS i x /\ INV i x /\ DEPI x.
+
+Lemma core_cons tr R : core (tr :: R) = if is_tworking tr then core R else tr :: core R.
+Proof. unfold core. simpl. destruct (is_tworking tr); reflexivity. Qed.
+
+Lemma in_core tr R : In tr R -> is_tworking tr = false -> In tr (core R).
+Proof. intros H E. unfold core. apply filter_In. split; auto. rewrite E. reflexivity. Qed.
+
+Lemma not_in_core_mono c tr R : ~ In c (comps (core (tr :: R))) -> ~ In c (comps (core R)).
+Proof. rewrite core_cons. destruct (is_tworking tr); simpl; tauto. Qed.
+
+Lemma NoDup_core_tail tr R : NoDup (comps (core (tr :: R))) -> NoDup (comps (core R)).
+Proof. rewrite core_cons. destruct (is_tworking tr); simpl; auto. intros H. inversion H; auto. Qed.
+
+(* the side conditions for the head of the batch, from its pending fact *)
+Lemma head_sides x tr R x' :
+  WFS i x -> FE i x -> pend x R tr -> apply_transition sigma i x tr = Ok x' -> side2 tr x' = true.
+Proof.
+  intros W F P H. unfold side2, transit_side_b, transit_claim_b.
+  destruct (tr_new tr) as [s|s] eqn:En; [destruct (tr_comp tr); reflexivity|].
+  destruct s; try (destruct (tr_comp tr); reflexivity).
+  destruct (P En) as [t [j [oc [Hc [Hj [Htc Hloc]]]]]].
+  unfold tc in Htc. destruct (nth_error (s_trans x) t) as [ts|] eqn:Hts; [|discriminate]. simpl in Htc. inversion Htc as [[E1 E2 E3]].
+  destruct (apply_transit_spec sigma i _ _ _ _ _ H Hc En Hts) as [j' [jb [jb' [ts' [Hj' [Hjb [Hjb' [Hops [Hts' Hjob]]]]]]]]].
+  rewrite Hj in Hj'. inversion Hj'; subst j'. rewrite Hj, Hc, Hjb', Hts'. rewrite Hjob, E3. simpl. rewrite Nat.eqb_refl, andb_true_r.
+  assert (Hrun : is_job_running jb = false).
+  { eapply (outside_not_running i); eauto. intros m Eq.
+    destruct Hloc as [[L [HL [O1 _]]]|[t0 [HL _]]]; rewrite (jloc_of _ _ _ Hjb), Eq in HL; inversion HL; subst.
+    apply (O1 m); reflexivity. }
+  unfold is_job_running in *. rewrite Hops, Hrun. reflexivity.
+Qed.
+
+
+
+(* the triple of an AGV that still has a (non-dispatch) transition in the batch is not touched by the head *)
+Lemma tc_stable x tr0 R x' tr1 t st oc jb :
+  NoDup (comps (core (tr0 :: R))) -> apply_transition sigma i x tr0 = Ok x' -> In tr1 R -> is_tworking tr1 = false ->
+  tr_comp tr1 = CT t -> tc x t = Some (st, oc, jb) -> st <> TIdle -> tc x' t = tc x t.
+Proof.
+  intros ND H Hin Ew1 Hc Htc Hst.
+  assert (Hcore1 : In tr1 (core R)) by (apply in_core; auto).
+  apply (apply_tc_other sigma i _ _ _ t H). intros Hc0.
+  destruct (is_tworking tr0) eqn:Ew.
+  - unfold tc in Htc. destruct (nth_error (s_trans x) t) as [ts|] eqn:Hts; [|discriminate]. simpl in Htc. inversion Htc as [[E1 E2 E3]].
+    unfold is_tworking in Ew. destruct (tr_new tr0) as [s0|s0] eqn:En0; [discriminate|]. destruct s0; try discriminate.
+    destruct (apply_transport sigma i _ _ _ _ _ Hc0 Hts H) as [[E _]|[[_ [E _]]|[[_ [E _]]|[[_ [E _]]|[[_ [E _]]|[_ [E _]]]]]]];
+      try (rewrite En0 in E; discriminate). congruence.
+  - rewrite core_cons, Ew in ND. simpl in ND. inversion ND as [|? ? Hnin _]. apply Hnin.
+    rewrite Hc0, <- Hc. apply in_map. exact Hcore1.
+Qed.
+
+Lemma Qstruct_tail tr0 R : Qstruct (tr0 :: R) -> Qstruct R /\ (is_tworking tr0 = true -> forall tr, In tr R -> is_tworking tr = true).
+Proof.
+  intros [A [B [E [HA HB]]]]. destruct A as [|a A'].
+  - simpl in E. subst B. split.
+    + exists [], R. split; [reflexivity|]. split; [intros tr []|]. intros tr Hin. apply HB. right; auto.
+    + intros _ tr Hin. apply HB. right; auto.
+  - simpl in E. inversion E; subst a R. split.
+    + exists A', B. split; [reflexivity|]. split; auto. intros tr Hin. apply HA. right; auto.
+    + intros Ht. rewrite (HA tr0 (or_introl eq_refl)) in Ht. discriminate.
+Qed.
+
+Lemma wkind_not_tworking tr : wkind tr -> is_tworking tr = false.
+Proof. unfold is_tworking. intros [-> | ->]; reflexivity. Qed.
+
+Lemma Qdep_step x tr0 R x' :
+  WFS i x -> DEPI x -> Qstruct (tr0 :: R) -> Qdep (tr0 :: R) x -> apply_transition sigma i x tr0 = Ok x' -> Qdep R x'.
+Proof.
+  intros W D Hs HQ H t st b k d jb t2 st2 oc2 Ht Ht2.
+  destruct (Qstruct_tail _ _ Hs) as [_ Htw].
+  destruct (comp_eq_dec (tr_comp tr0) (CT t)) as [Hc|Hn].
+  - (* the depending AGV acts: a new dependency is on a job nobody has claimed *)
+    exfalso.
+    destruct (nth_error (s_trans x) t) as [ts|] eqn:Hts; [|unfold apply_transition in H; rewrite Hc, Hts in H; discriminate].
+    destruct (apply_tc_self2 _ _ _ _ _ H Hc Hts) as [st' [oc' [jb' [E [[z Hz]|[[Ho Hst]|[Hw [Hk [Es [Ej [[j Hj] Hb]]]]]]]]]]];
+      rewrite E in Ht; inversion Ht as [[I1 I2 I3]].
+    + rewrite Hz in I2. discriminate.
+    + pose proof (tc_of _ _ _ Hts) as Htc. rewrite <- Ho, I2 in Htc. destruct (D _ _ _ _ _ _ Htc) as [Ew _]. congruence.
+    + rewrite I2 in Hw. destruct (waiting_time_dep _ _ _ _ _ _ W D Hj Hw) as [_ [Hun _]].
+      destruct (comp_eq_dec (tr_comp tr0) (CT t2)) as [Hc2|Hn2].
+      * rewrite Hc in Hc2. inversion Hc2; subst t2. rewrite E in Ht2. inversion Ht2 as [[K1 K2 K3]].
+        apply (Hun t (t_st ts) (t_occ ts)). rewrite (tc_of _ _ _ Hts), <- K3, Ej. reflexivity.
+      * rewrite (apply_tc_other sigma i _ _ _ t2 H Hn2) in Ht2. exact (Hun _ _ _ Ht2).
+  - (* another component acts: the dependency is the old one *)
+    rewrite (apply_tc_other sigma i _ _ _ t H Hn) in Ht.
+    destruct (D _ _ _ _ _ _ Ht) as [_ [j [m [ms [mc [_ [_ [_ [_ [Hcd _]]]]]]]]]].
+    assert (Hd0 : d <> tr0) by (intros ->; congruence).
+    assert (Keep : forall st2x oc2x, tc x t2 = Some (st2x, oc2x, Some k) ->
+              (st2x = TPickup /\ (forall tr, In tr (tr0 :: R) -> is_tworking tr = true))
+              \/ (In d R /\ forall tr, In tr R -> tr_comp tr = CT t2 -> tr_new tr <> NT TTransit)).
+    { intros st2x oc2x Hx. destruct (HQ _ _ _ _ _ _ _ _ _ Ht Hx) as [[A1 A2]|[[A1|A1] A2]]; [left; auto|congruence|].
+      right. split; auto. intros tr Hin. apply A2. right; auto. }
+    destruct (comp_eq_dec (tr_comp tr0) (CT t2)) as [Hc2|Hn2].
+    + destruct (nth_error (s_trans x) t2) as [ts2|] eqn:Hts2; [|unfold apply_transition in H; rewrite Hc2, Hts2 in H; discriminate].
+      destruct (apply_tc_self sigma i _ _ _ _ _ H Hc2 Hts2) as [st' [oc' [jb' [E [_ [Hjb|[Hjb|[Hnw [Hidle [Hjb _]]]]]]]]]];
+        rewrite E in Ht2; inversion Ht2 as [[K1 K2 K3]].
+      * (* the claim is the old one *)
+        assert (Hx : tc x t2 = Some (t_st ts2, t_occ ts2, Some k)) by (rewrite (tc_of _ _ _ Hts2); congruence).
+        destruct (Keep _ _ Hx) as [[A1 A2]|A]; [|right; exact A].
+        exfalso. pose proof (A2 tr0 (or_introl eq_refl)) as Ew. unfold is_tworking in Ew.
+        destruct (tr_new tr0) as [s0|s0] eqn:En0; [discriminate|]. destruct s0; try discriminate.
+        destruct (apply_transport sigma i _ _ _ _ _ Hc2 Hts2 H) as [[E0 _]|[[_ [E0 _]]|[[_ [E0 _]]|[[_ [E0 _]]|[[_ [E0 _]]|[_ [E0 _]]]]]]];
+          try (rewrite En0 in E0; discriminate). congruence.
+      * congruence.
+      * (* dispatched now: only dispatches are left, and the AGV is on its way *)
+        left. assert (Ew : is_tworking tr0 = true) by (unfold is_tworking; rewrite Hnw; reflexivity).
+        split; [|exact (Htw Ew)].
+        destruct (apply_transport sigma i _ _ _ _ _ Hc2 Hts2 H) as [[_ [_ C]]|[[_ [E0 _]]|[[_ [E0 _]]|[[_ [E0 _]]|[[_ [E0 _]]|[_ [E0 _]]]]]]];
+          try (rewrite Hnw in E0; discriminate).
+        destruct (post_dispatch i _ _ _ _ _ Hts2 C) as [j0 [p0 [jb0 [tg [c0 [ttp [_ [_ [_ [_ [_ [_ [Hrec _]]]]]]]]]]]]].
+        rewrite (tc_of _ _ _ Hrec) in E. simpl in E. inversion E. congruence.
+    + rewrite (apply_tc_other sigma i _ _ _ t2 H Hn2) in Ht2.
+      destruct (Keep _ _ Ht2) as [[A1 A2]|A]; [|right; exact A]. left. split; auto. intros tr Hin. apply A2. right; auto.
+Qed.
+
+Lemma pend_step x tr R x' :
+  WFS i x -> NoDup (comps (core (tr :: R))) -> (forall tr1, In tr1 (tr :: R) -> pend x (tr :: R) tr1) ->
+  apply_transition sigma i x tr = Ok x' -> forall tr1, In tr1 R -> pend x' R tr1.
+Proof.
+  intros W ND HP H.
+  intros tr1 Hin En. destruct (HP tr1 (or_intror Hin) En) as [t [j [oc [Hc [Hj [Htc Hloc]]]]]].
+  assert (Hcore1 : In tr1 (core R)) by (apply in_core; auto; unfold is_tworking; rewrite En; reflexivity).
+  exists t, j, oc. split; auto. split; auto. split.
+  - (* the AGV's triple: the head is a transition of another component *)
+    rewrite (apply_tc_other sigma i _ _ _ t H); auto. intros Hc0.
+    destruct (is_tworking tr) eqn:Ew.
+    + (* a dispatch needs an idle AGV *)
+      unfold tc in Htc. destruct (nth_error (s_trans x) t) as [ts|] eqn:Hts; [|discriminate]. simpl in Htc. inversion Htc as [[E1 E2 E3]].
+      unfold is_tworking in Ew. destruct (tr_new tr) as [s|s] eqn:En0; [discriminate|]. destruct s; try discriminate.
+      destruct (apply_transport sigma i _ _ _ _ _ Hc0 Hts H) as [[E _]|[[_ [E _]]|[[_ [E _]]|[[_ [E _]]|[[_ [E _]]|[_ [E _]]]]]]];
+        try (rewrite En0 in E; discriminate). rewrite E1 in E. discriminate.
+    + rewrite core_cons, Ew in ND. simpl in ND. inversion ND as [|? ? Hnin _]. apply Hnin.
+      rewrite Hc0, <- Hc. apply in_map. exact Hcore1.
+  - (* the job's place *)
+    destruct (apply_loc_eff sigma i _ _ _ H j) as [Same|[A [B [a [Ha [Hina [HB Hk]]]]]]].
+    + destruct Hloc as [[L [HL O]]|[t0 [HL Hn]]].
+      * left. exists L. rewrite Same. auto.
+      * right. exists t0. rewrite Same. split; auto. eapply not_in_core_mono; eauto.
+    + pose proof (stored_loc _ _ _ _ W Ha Hina) as HA.
+      destruct Hloc as [[L [HL [O1 [O2 O3]]]]|[t0 [HL Hn]]]; rewrite HA in HL; inversion HL; subst.
+      * destruct Hk as [[m [_ [[E _]|[E _]]]]|[[t1 [Hc1 [Hn1 [_ [_ [-> _]]]]]]|[t1 [_ [_ E]]]]].
+        -- exfalso. apply (O2 m); auto.
+        -- exfalso. apply (O1 m); auto.
+        -- right. exists t1. split; auto.
+           assert (Ew : is_tworking tr = false) by (unfold is_tworking; rewrite Hn1; reflexivity).
+           rewrite core_cons, Ew in ND. simpl in ND. inversion ND as [|? ? Hnin _]. rewrite <- Hc1. exact Hnin.
+        -- exfalso. apply (O3 t1); auto.
+      * exfalso. destruct Hk as [[m [_ [[E _]|[E _]]]]|[[t1 [_ [_ [_ [_ [_ E]]]]]]|[t1 [Hc1 [Hn1 E]]]]]; try discriminate.
+        -- apply (E t0); reflexivity.
+        -- inversion E; subst t1. apply Hn. rewrite core_cons.
+           assert (Ew : is_tworking tr = false) by (unfold is_tworking; rewrite Hn1; reflexivity).
+           rewrite Ew. simpl. left. auto.
+Qed.
+
+
+Lemma Q_step x tr R x' :
+  WFS i x -> DEPI x -> Q (tr :: R) x -> apply_transition sigma i x tr = Ok x' -> Q R x'.
+Proof.
+  intros W D [ND [HP [HW [HS HD]]]] H. split; [eapply NoDup_core_tail; eauto|].
+  split; [eapply pend_step; eauto|]. split; [|split; [exact (proj1 (Qstruct_tail _ _ HS))|eapply Qdep_step; eauto]].
+  intros tr1 Hin Hk. destruct (HW tr1 (or_intror Hin) Hk) as [t [j [st [oc [Hc [Hj [Htc Hst]]]]]]].
+  exists t, j, st, oc. split; auto. split; auto. split; auto.
+  rewrite (tc_stable x tr R x' tr1 t st oc (Some j) ND H Hin (wkind_not_tworking _ Hk) Hc Htc); auto.
+  destruct Hst as [-> | ->]; discriminate.
+Qed.
+
+Theorem J_apply x tr R x' :
+  NO x -> J x -> Q (tr :: R) x -> is_transition_valid x tr = Ok true -> apply_transition sigma i x tr = Ok x' ->
+  J x' /\ Q R x' /\ side2 tr x' = true.
+Proof.
+  intros N [W [I D]] HQ Hv Ha.
+  assert (S : side2 tr x' = true).
+  { destruct I as [F _]. eapply head_sides; eauto. destruct HQ as [_ [HP _]]. apply HP. left; reflexivity. }
+  split; [|split; [eapply Q_step; eauto|exact S]].
+  split; [eapply apply_preserves_WFS; eauto|]. split; [eapply INV_apply; eauto|].
+  destruct HQ as [_ [HP [HW [HS HD]]]].
+  apply (apply_preserves_DEPI x tr x' W D); auto.
+  - intros t Hc Hk. destruct (HW tr (or_introl eq_refl) Hk) as [t1 [j [st [oc [Hc1 [Hj [Htc _]]]]]]].
+    rewrite Hc in Hc1. inversion Hc1; subst t1. eauto.
+  - intros t0 j0 Hc Hn Hj t st b d jb Htc.
+    destruct (HP tr (or_introl eq_refl) Hn) as [t1 [j [oc [Hc1 [Hj1 [Htc1 _]]]]]].
+    rewrite Hc in Hc1. inversion Hc1; subst t1. rewrite Hj in Hj1. inversion Hj1; subst j.
+    destruct (HD _ _ _ _ _ _ _ _ _ Htc Htc1) as [[_ A]|[_ A]].
+    + pose proof (A tr (or_introl eq_refl)) as Ew. unfold is_tworking in Ew. rewrite Hn in Ew. discriminate.
+    + apply (A tr (or_introl eq_refl) Hc Hn).
+Qed.
+
+Lemma J_now x t : J x -> (s_now x <= t)%Z -> J (set_now x t).
+Proof.
+  intros [W [I D]] H. split; [apply WFS_set_now; auto|]. split; [apply INV_now; auto|apply DEPI_set_now; auto].
+Qed.
+
+Lemma BI_end x : J x -> Q [] x -> BI x.
+Proof.
+  intros _ [_ [_ [_ [_ HD]]]] t st b k d jb t2 st2 oc2 H1 H2.
+  destruct (HD _ _ _ _ _ _ _ _ _ H1 H2) as [[A _]|[[] _]]. exact A.
+Qed.
+
+Lemma BI_now x t : BI x -> BI (set_now x t).
+Proof. intros B t0 st b k d jb t2 st2 oc2 H1 H2. rewrite tc_set_now in H1, H2. eapply B; eauto. Qed.
+
+(* ---------- the batch invariant holds where the simulator creates its transitions ---------- *)
+Lemma NoDup_map_filter {A B} (f : A -> B) (p : A -> bool) l : NoDup (map f l) -> NoDup (map f (filter p l)).
+Proof.
+  induction l as [|a r IH]; simpl; intros H; [constructor|]. inversion H as [|? ? Hn Hr]; subst.
+  destruct (p a); simpl; auto. constructor; auto. intros Hin. apply Hn.
+  apply in_map_iff in Hin. destruct Hin as [y [E Hy]]. apply filter_In in Hy. rewrite <- E. apply in_map. tauto.
+Qed.
+
+Lemma timed_machines_comps now : forall l m r,
+  timed_machines_from i now m l = Ok r ->
+  (forall tr, In tr r -> (exists k, tr_comp tr = CM k /\ m <= k) /\ exists s, tr_new tr = NM s) /\ NoDup (comps r).
+Proof.
+  induction l as [|ms l IH]; intros m r H; simpl in H.
+  - inversion H; subst. split; [intros tr []|constructor].
+  - destruct (timed_machine i now m ms) as [o|] eqn:Eo; simpl in H; [|discriminate].
+    destruct (timed_machines_from i now (S m) l) as [rest|] eqn:Er; simpl in H; [|discriminate].
+    destruct (IH _ _ Er) as [A B]. inversion H; subst; clear H.
+    destruct o as [tr0|]; [|split; [intros tr Hin; destruct (A tr Hin) as [[k [E1 E2]] S]; split; auto; exists k; split; auto; lia|exact B]].
+    assert (Hc : tr_comp tr0 = CM m /\ exists s, tr_new tr0 = NM s).
+    { destruct (timed_machine_spec i _ _ _ _ Eo) as [[z [j [_ [_ [_ [Hc [_ Hs]]]]]]]|[c [j [_ [_ [_ ->]]]]]].
+      - split; auto. destruct Hs as [[_ ->]|[[_ ->]|[_ ->]]]; eauto.
+      - simpl. eauto. }
+    destruct Hc as [Hc Hs]. split.
+    + intros tr [<-|Hin]; [split; auto; exists m; auto|]. destruct (A tr Hin) as [[k [E1 E2]] S]. split; auto. exists k; split; auto; lia.
+    + simpl. constructor; auto. intros Hin. apply in_map_iff in Hin. destruct Hin as [tr [E Hin]].
+      destruct (A tr Hin) as [[k [E1 E2]] _]. rewrite Hc, E1 in E. inversion E. lia.
+Qed.
+
+Lemma is_ready_outside x j jb : is_ready i x j jb = Ok true -> outside (j_loc jb).
+Proof.
+  unfold is_ready. intros H. inv_all H. inversion H as [Hb]. apply andb_true_iff in Hb. destruct Hb as [Hb _].
+  destruct (j_loc jb); try discriminate; repeat split; intros; discriminate.
+Qed.
+
+
+(* what one AGV contributes to the timed transitions *)
+Lemma timed_slot x t ts l :
+  WFS i x -> DEPI x -> nth_error (s_trans x) t = Some ts -> timed_transport i x t ts = Ok l ->
+  l = [] \/ exists tr, l = [tr] /\ tr_comp tr = CT t /\ is_tworking tr = false
+     /\ (wkind tr -> exists j, tr_job tr = Some j /\ t_job ts = Some j /\ (t_st ts = TPickup \/ t_st ts = TWaiting))
+     /\ (tr_new tr = NT TTransit -> t_st ts = TWaiting /\ exists j L, tr_job tr = Some j /\ jloc x j = Some L /\ outside L)
+     /\ ((exists z, t_occ ts = OAt z) \/ exists b k d, t_occ ts = ODep b k d /\ tr = d).
+Proof.
+  intros W D Hts H. unfold timed_transport in H. destruct (t_occ ts) as [|z|b k d] eqn:Eo.
+  - inversion H. auto.
+  - destruct (z <=? s_now x)%Z; [|inversion H; auto].
+    match type of H with bind ?e _ = _ => destruct e as [o|] eqn:Ec; simpl in H; [|discriminate] end.
+    inversion H; subst; clear H. destruct o as [tr|]; [|auto]. right. exists tr. split; [reflexivity|].
+    assert (Pick : create_idle_to_pick i x t ts = Ok (Some tr) -> (t_st ts = TPickup \/ t_st ts = TWaiting) ->
+              tr_comp tr = CT t /\ is_tworking tr = false
+              /\ (wkind tr -> exists j, tr_job tr = Some j /\ t_job ts = Some j /\ (t_st ts = TPickup \/ t_st ts = TWaiting))
+              /\ (tr_new tr = NT TTransit -> t_st ts = TWaiting /\ exists j L, tr_job tr = Some j /\ jloc x j = Some L /\ outside L)).
+    { intros Hp Hst. unfold create_idle_to_pick in Hp.
+      destruct (t_job ts) as [j|] eqn:Ej; simpl in Hp; [|discriminate].
+      destruct (get_job x j) as [jb|] eqn:Ejb; simpl in Hp; [|discriminate]. apply get_job_ok in Ejb.
+      destruct (is_ready i x j jb) as [rdy|] eqn:Er; simpl in Hp; [|discriminate].
+      destruct (t_st ts) eqn:Es; try (destruct Hst; discriminate).
+      - inversion Hp; subst tr. simpl. split; auto. split; auto. split; [intros _; exists j; auto|discriminate].
+      - destruct rdy; inversion Hp; subst tr; simpl; (split; [reflexivity|]); (split; [reflexivity|]); (split; [intros _; exists j; auto|]).
+        + intros _. split; auto. exists j, (j_loc jb). split; auto. split; [apply jloc_of; auto|eapply is_ready_outside; eauto].
+        + discriminate. }
+    destruct (t_st ts) eqn:Es; try discriminate.
+    + destruct (Pick Ec (or_introl eq_refl)) as [A [B [C0 D0]]]. split; auto. split; auto. split; auto. split; auto. left; eauto.
+    + unfold create_pickup_to_drop in Ec. destruct (b_store (t_buf ts)) as [|j0 [|]]; try discriminate.
+      inv_all Ec. inversion Ec; subst. simpl. split; auto. split; auto.
+      split; [intros [Hk|Hk]; discriminate|]. split; [discriminate|left; eauto].
+    + inversion Ec; subst. simpl. split; auto. split; auto. split; [intros [Hk|Hk]; discriminate|]. split; [discriminate|left; eauto].
+    + destruct (Pick Ec (or_intror eq_refl)) as [A [B [C0 D0]]]. split; auto. split; auto. split; auto. split; auto. left; eauto.
+  - match type of H with bind ?e _ = _ => destruct e as [r|] eqn:Er; simpl in H; [|discriminate] end.
+    inversion H; subst; clear H. destruct r; [|auto]. right. exists d. split; [reflexivity|].
+    pose proof (tc_of _ _ _ Hts) as Htc. rewrite Eo in Htc.
+    destruct (D _ _ _ _ _ _ Htc) as [Est [j [m [ms [mc [Ej [Eb [Hms [Hmc [Hcd [Hjd [Hk R]]]]]]]]]]]].
+    split; auto. split; [apply wkind_not_tworking; auto|]. split; [intros _; exists j; auto|]. split.
+    + intros _. split; auto. exists j, (BPost m). split; auto. split.
+      * eapply stored_loc; eauto; [simpl; rewrite Hms; reflexivity|apply (proj2 (rel_in _ _ _ _ R))].
+      * repeat split; intros; discriminate.
+    + right. eauto.
+Qed.
+
+(* ... and all AGVs together *)
+Lemma timed_transports_all x : forall l t r,
+  (forall k ts, nth_error l k = Some ts -> nth_error (s_trans x) (t + k) = Some ts) -> WFS i x -> DEPI x ->
+  timed_transports_from i x t l = Ok r ->
+  (forall tr, In tr r -> exists k ts, nth_error l k = Some ts /\ timed_transport i x (t + k) ts = Ok [tr] /\ tr_comp tr = CT (t + k))
+  /\ NoDup (comps r)
+  /\ (forall k ts a, nth_error l k = Some ts -> timed_transport i x (t + k) ts = Ok a -> forall tr, In tr a -> In tr r).
+Proof.
+  induction l as [|ts l IH]; intros t r Hsub W D H; simpl in H.
+  - inversion H; subst. split; [intros tr []|]. split; [constructor|]. intros k ts a Hk. destruct k; discriminate.
+  - destruct (timed_transport i x t ts) as [a|] eqn:Ea; simpl in H; [|discriminate].
+    destruct (timed_transports_from i x (S t) l) as [rest|] eqn:Er; simpl in H; [|discriminate].
+    assert (Hsub' : forall k ts0, nth_error l k = Some ts0 -> nth_error (s_trans x) (S t + k) = Some ts0).
+    { intros k ts0 Hk. replace (S t + k) with (t + S k) by lia. apply Hsub. exact Hk. }
+    destruct (IH _ _ Hsub' W D Er) as [A [B C0]]. inversion H; subst; clear H.
+    assert (Hts : nth_error (s_trans x) t = Some ts) by (rewrite <- (Nat.add_0_r t); apply Hsub; reflexivity).
+    assert (Arest : forall tr, In tr rest -> exists k ts0, nth_error (ts :: l) k = Some ts0
+              /\ timed_transport i x (t + k) ts0 = Ok [tr] /\ tr_comp tr = CT (t + k)).
+    { intros tr Hin. destruct (A tr Hin) as [k [ts0 [H1 [H2 H3]]]].
+      exists (S k), ts0. replace (t + S k) with (S t + k) by lia. simpl. auto. }
+    assert (Crest : forall k ts0 a0, nth_error (ts :: l) k = Some ts0 -> timed_transport i x (t + k) ts0 = Ok a0 ->
+              forall tr, In tr a0 -> In tr (a ++ rest)).
+    { intros k ts0 a0 Hk Ht tr Hin. destruct k as [|k].
+      - simpl in Hk. inversion Hk; subst ts0. rewrite Nat.add_0_r in Ht. rewrite Ea in Ht. inversion Ht; subst a0.
+        apply in_app_iff. left; auto.
+      - simpl in Hk. apply in_app_iff. right. apply (C0 k ts0 a0 Hk); auto. replace (S t + k) with (t + S k) by lia. exact Ht. }
+    destruct (timed_slot _ _ _ _ W D Hts Ea) as [->|[tr0 [-> [Hc _]]]]; simpl.
+    + split; auto.
+    + split; [|split; [|exact Crest]].
+      * intros tr [<-|Hin]; [|auto]. exists 0, ts. rewrite Nat.add_0_r. simpl. auto.
+      * constructor; auto. intros Hin. apply in_map_iff in Hin. destruct Hin as [tr [E Hin]].
+        destruct (A tr Hin) as [k [_ [_ [_ E1]]]]. rewrite Hc, E1 in E. inversion E. lia.
+Qed.
+
+Lemma timed_transport_comp x b tr :
+  J x -> create_timed_transport_transitions i x = Ok b -> In tr b -> exists k, tr_comp tr = CT k.
+Proof.
+  intros [W [_ D]] H Hin. unfold create_timed_transport_transitions in H.
+  destruct (timed_transports_all x _ 0 _ (fun k ts Hk => Hk) W D H) as [A _].
+  destruct (A tr Hin) as [k [_ [_ [_ E]]]]. eauto.
+Qed.
+
+
+Lemma timed_transport_slot x b tr :
+  J x -> create_timed_transport_transitions i x = Ok b -> In tr b ->
+  exists k ts, nth_error (s_trans x) k = Some ts /\ timed_transport i x k ts = Ok [tr] /\ tr_comp tr = CT k
+    /\ ((exists z, t_occ ts = OAt z) \/ (exists b0 k0 d, t_occ ts = ODep b0 k0 d /\ tr = d /\ wkind d)).
+Proof.
+  intros [W [_ D]] H Hin. unfold create_timed_transport_transitions in H.
+  destruct (timed_transports_all x _ 0 _ (fun k ts Hk => Hk) W D H) as [A _].
+  destruct (A tr Hin) as [k [ts [Hts [Htt Hc]]]]. simpl in Htt, Hc. exists k, ts. split; auto. split; auto. split; auto.
+  destruct (timed_slot _ _ _ _ W D Hts Htt) as [E|[tr0 [E [_ [_ [_ [_ [Hz|[b0 [k0 [d [Ho Ed]]]]]]]]]]]]; [discriminate| |].
+  - left; auto.
+  - inversion E; subst tr0. right. exists b0, k0, d. split; auto. split; auto.
+    pose proof (tc_of _ _ _ Hts) as Htc. rewrite Ho in Htc. destruct (D _ _ _ _ _ _ Htc) as [_ [j [m [ms [mc [_ [_ [_ [_ [_ [_ [Hk _]]]]]]]]]]]]. exact Hk.
+Qed.
+
+Lemma timed_transport_nodup x b : J x -> create_timed_transport_transitions i x = Ok b -> NoDup (comps b).
+Proof.
+  intros [W [_ D]] H. unfold create_timed_transport_transitions in H.
+  destruct (timed_transports_all x _ 0 _ (fun k ts Hk => Hk) W D H) as [_ [B _]]. exact B.
+Qed.
+
+(* a dependency on a claimed job is re-issued *)
+Lemma dep_issued x timed t st b k d jb t2 st2 oc2 :
+  J x -> tc x t = Some (st, ODep b k d, jb) -> tc x t2 = Some (st2, oc2, Some k) ->
+  create_timed_transitions i x = Ok timed -> In d timed.
+Proof.
+  intros [W [_ D]] Ht Ht2 H. unfold create_timed_transitions in H.
+  destruct (create_timed_machine_transitions i x) as [a|] eqn:Ea; simpl in H; [|discriminate].
+  destruct (create_timed_transport_transitions i x) as [b0|] eqn:Eb; simpl in H; [|discriminate].
+  inversion H; subst; clear H. apply in_app_iff. right.
+  unfold create_timed_transport_transitions in Eb.
+  destruct (timed_transports_all x _ 0 _ (fun k0 ts Hk => Hk) W D Eb) as [_ [_ C0]].
+  unfold tc in Ht. destruct (nth_error (s_trans x) t) as [ts|] eqn:Hts; [|discriminate]. simpl in Ht. inversion Ht as [[E1 E2 E3]].
+  destruct (D _ _ _ _ _ _ (eq_trans (tc_of _ _ _ Hts) (f_equal (fun o => Some (t_st ts, o, t_job ts)) E2)))
+    as [_ [j [m [ms [mc [_ [Eb0 [Hms [Hmc _]]]]]]]]].
+  apply (C0 t ts [d] Hts); [|left; reflexivity]. simpl.
+  unfold timed_transport. rewrite E2. subst b. unfold time_dependency_is_resolved, get_mach. rewrite Hms, Hmc. simpl.
+  destruct (opt_nat_eqb (t_job ts) (get_next_job_from_buffer (m_post ms) (bc_type (mc_post mc)))); [reflexivity|].
+  assert (Hex : existsb (fun t' => opt_nat_eqb (t_job t') (Some k)) (s_trans x) = true).
+  { unfold tc in Ht2. destruct (nth_error (s_trans x) t2) as [ts2|] eqn:Hts2; [|discriminate]. simpl in Ht2. inversion Ht2 as [[K1 K2 K3]].
+    apply existsb_exists. exists ts2. split; [eapply nth_error_In; eauto|]. rewrite K3. simpl. apply Nat.eqb_refl. }
+  rewrite Hex. reflexivity.
+Qed.
+
+Definition offer_shape (tr : transition) : Prop :=
+  (exists m j, tr = mkTr (CM m) (NM MSetup) (Some j)) \/ (exists t j, tr = mkTr (CT t) (NT TWorking) (Some j)).
+
+Theorem Q_created x timed tele :
+  J x -> BI x -> create_timed_transitions i x = Ok timed -> Forall (fun tr => is_tworking tr = true) tele -> Q (timed ++ tele) x.
+Proof.
+  intros HJ Hbi H Ht. pose proof HJ as [W [[F _] D]]. pose proof H as Hct. unfold create_timed_transitions in H.
+  destruct (create_timed_machine_transitions i x) as [a|] eqn:Ea; simpl in H; [|discriminate].
+  destruct (create_timed_transport_transitions i x) as [b|] eqn:Eb; simpl in H; [|discriminate].
+  inversion H; subst; clear H.
+  destruct (timed_machines_comps _ _ _ _ Ea) as [A1 A2].
+  unfold create_timed_transport_transitions in Eb.
+  destruct (timed_transports_all x _ 0 _ (fun k0 ts Hk => Hk) W D Eb) as [B1 [B2 B3]].
+  assert (Slot : forall tr, In tr b -> exists k ts, nth_error (s_trans x) k = Some ts /\ tr_comp tr = CT k /\ is_tworking tr = false
+     /\ (wkind tr -> exists j, tr_job tr = Some j /\ t_job ts = Some j /\ (t_st ts = TPickup \/ t_st ts = TWaiting))
+     /\ (tr_new tr = NT TTransit -> t_st ts = TWaiting /\ exists j L, tr_job tr = Some j /\ jloc x j = Some L /\ outside L)).
+  { intros tr Hin. destruct (B1 tr Hin) as [k [ts [Hts [Htt Hc]]]]. simpl in Htt, Hc. exists k, ts. split; auto.
+    destruct (timed_slot _ _ _ _ W D Hts Htt) as [E|[tr0 [E [P1 [P2 [P3 [P4 _]]]]]]]; [discriminate|]. inversion E; subst tr0. auto. }
+  rewrite Forall_forall in Ht.
+  assert (Hcore : core ((a ++ b) ++ tele) = core (a ++ b)).
+  { unfold core. rewrite filter_app.
+    assert (E : filter (fun tr => negb (is_tworking tr)) tele = []).
+    { clear -Ht. induction tele as [|h r IH]; simpl; auto. rewrite (Ht h (or_introl eq_refl)). simpl. apply IH. intros y Hy. apply Ht. right; auto. }
+    rewrite E, app_nil_r. reflexivity. }
+  assert (Hmach : forall tr, In tr a -> is_tworking tr = false /\ ~ wkind tr /\ forall t, tr_comp tr <> CT t).
+  { intros tr Hin. destruct (A1 tr Hin) as [[k [Hk _]] [s0 Hs]]. unfold is_tworking, wkind. rewrite Hs, Hk.
+    split; [reflexivity|]. split; [intros [E|E]; discriminate|intros t; discriminate]. }
+  split; [|split; [|split; [|split]]].
+  - rewrite Hcore. unfold core, comps. apply NoDup_map_filter. rewrite map_app. apply NoDup_app; auto.
+    intros c Hc1 Hc2. apply in_map_iff in Hc1, Hc2. destruct Hc1 as [t1 [E1 I1]]. destruct Hc2 as [t2 [E2 I2]].
+    destruct (A1 _ I1) as [[k [Hk _]] _]. destruct (Slot _ I2) as [k2 [_ [_ [Hk2 _]]]]. congruence.
+  - intros tr Hin En. apply in_app_iff in Hin. destruct Hin as [Hin|Hin]; [apply in_app_iff in Hin; destruct Hin as [Hin|Hin]|].
+    + destruct (A1 _ Hin) as [_ [s0 Hs]]. congruence.
+    + destruct (Slot _ Hin) as [k [ts [Hts [Hc [_ [Pw Pt]]]]]]. destruct (Pt En) as [Hst [j [L [Hj [HL HO]]]]].
+      destruct (Pw (or_intror En)) as [j' [Hj' [Hjob _]]]. rewrite Hj in Hj'. inversion Hj'; subst j'.
+      exists k, j, (t_occ ts). split; auto. split; auto. split; [rewrite (tc_of _ _ _ Hts), Hst, Hjob; reflexivity|].
+      left. exists L. auto.
+    + specialize (Ht _ Hin). unfold is_tworking in Ht. rewrite En in Ht. discriminate.
+  - intros tr Hin Hk. apply in_app_iff in Hin. destruct Hin as [Hin|Hin]; [apply in_app_iff in Hin; destruct Hin as [Hin|Hin]|].
+    + destruct (Hmach _ Hin) as [_ [Hn _]]. contradiction.
+    + destruct (Slot _ Hin) as [k [ts [Hts [Hc [_ [Pw _]]]]]]. destruct (Pw Hk) as [j [Hj [Hjob Hst]]].
+      exists k, j, (t_st ts), (t_occ ts). split; auto. split; auto. split; [rewrite (tc_of _ _ _ Hts), Hjob; reflexivity|exact Hst].
+    + specialize (Ht _ Hin). rewrite (wkind_not_tworking _ Hk) in Ht. discriminate.
+  - exists (a ++ b), tele. split; [reflexivity|]. split; [|exact Ht].
+    intros tr Hin. apply in_app_iff in Hin. destruct Hin as [Hin|Hin]; [apply (Hmach _ Hin)|].
+    destruct (Slot _ Hin) as [k [ts [_ [_ [Hw _]]]]]. exact Hw.
+  - intros t st b0 k d jb t2 st2 oc2 H1 H2. right. split.
+    + apply in_app_iff. left. exact (dep_issued _ _ _ _ _ _ _ _ _ _ _ HJ H1 H2 Hct).
+    + pose proof (Hbi _ _ _ _ _ _ _ _ _ H1 H2) as Est2. subst st2.
+      intros tr Hin Hc En. apply in_app_iff in Hin. destruct Hin as [Hin|Hin]; [apply in_app_iff in Hin; destruct Hin as [Hin|Hin]|].
+      * destruct (Hmach _ Hin) as [_ [_ Hn]]. apply (Hn t2). exact Hc.
+      * destruct (Slot _ Hin) as [k0 [ts [Hts [Hc0 [_ [_ Pt]]]]]]. destruct (Pt En) as [Hst _].
+        rewrite Hc in Hc0. inversion Hc0; subst k0. rewrite (tc_of _ _ _ Hts) in H2. inversion H2. congruence.
+      * specialize (Ht _ Hin). unfold is_tworking in Ht. rewrite En in Ht. discriminate.
+Qed.
+
+Lemma teleport_pick_in fuel : forall l a, In a (teleport_pick fuel l) -> In a l.
+Proof.
+  induction fuel as [|f IH]; intros l a H; simpl in H; [destruct H|].
+  destruct l as [|h r]; [destruct H|]. destruct H as [<-|H]; [left; reflexivity|].
+  apply IH in H. apply filter_In in H. tauto.
+Qed.
+
+Lemma offers_shape x offers tr :
+  get_possible_transitions i x = Ok offers -> In tr offers ->
+  (exists m j, tr = mkTr (CM m) (NM MSetup) (Some j)) \/ (exists t j, tr = mkTr (CT t) (NT TWorking) (Some j)).
+Proof.
+  unfold get_possible_transitions. intros H Hin.
+  destruct (filterM _ _) as [pj|] eqn:E1 in H; simpl in H; [|discriminate].
+  destruct (get_possible_transport_transition i x) as [pt|] eqn:E2; simpl in H; [|discriminate].
+  destruct (mapM _ pj) as [mt|] eqn:E3 in H; simpl in H; [|discriminate].
+  inversion H; subst; clear H. apply in_app_iff in Hin. destruct Hin as [Hin|Hin].
+  - left. destruct (mapM_in' _ _ _ _ E3 Hin) as [[j jb] [Hp Hf]]. simpl in Hf. inv_all Hf. inversion Hf; subst. eauto.
+  - right. destruct (transport_offers_spec i _ _ _ E2 Hin) as [t [ts [j [jb [-> _]]]]]. eauto.
+Qed.
+
+Lemma offers_not_transit x offers : get_possible_transitions i x = Ok offers -> Forall not_transit offers.
+Proof.
+  intros H. apply Forall_forall. intros tr Hin. unfold not_transit.
+  destruct (offers_shape _ _ _ H Hin) as [[m [j ->]]|[t [j ->]]]; simpl; discriminate.
+Qed.
+
+Lemma tele_tworking x poss tele :
+  get_possible_transitions i x = Ok poss -> filter_teleport i x poss = Ok tele -> Forall (fun tr => is_tworking tr = true) tele.
+Proof.
+  intros Hp H. unfold filter_teleport in H.
+  match type of H with bind ?e _ = _ => destruct e as [tl|] eqn:Ef; simpl in H; [|discriminate] end.
+  inversion H; subst; clear H. apply Forall_forall. intros tr Hin. apply teleport_pick_in in Hin.
+  destruct (filterM_in _ _ _ _ Ef Hin) as [Hi Hf].
+  destruct (offers_shape _ _ _ Hp Hi) as [[m [j ->]]|[t [j ->]]]; [|reflexivity].
+  simpl in Hf. destruct (travel_time_for_transport i x (Some j)); simpl in Hf; [inversion Hf|discriminate].
+Qed.
+
+Lemma offers_shape' x offers : get_possible_transitions i x = Ok offers -> Forall offer_shape offers.
+Proof. intros H. apply Forall_forall. intros tr Hin. exact (offers_shape _ _ _ H Hin). Qed.
+
+Lemma offer_shape_not_transit o : offer_shape o -> not_transit o.
+Proof. intros [[m [j ->]]|[t [j ->]]]; unfold not_transit; simpl; discriminate. Qed.
+
+Lemma Q_timed x timed poss tele : NO x -> J x -> BI x -> create_timed_transitions i x = Ok timed ->
+  get_possible_transitions i x = Ok poss -> filter_teleport i x poss = Ok tele -> Q (timed ++ tele) x.
+Proof. intros _ Hj Hb H Hp Hf. eapply Q_created; eauto. eapply tele_tworking; eauto. Qed.
+
+Lemma Q_timed0 x timed : NO x -> J x -> BI x -> create_timed_transitions i x = Ok timed -> Q timed x.
+Proof. intros _ Hj Hb H. rewrite <- (app_nil_r timed). eapply Q_created; eauto. Qed.
+
+Lemma Q_offer x o : J x -> BI x -> create_timed_transitions i x = Ok [] -> offer_shape o -> Q [o] x.
+Proof.
+  intros Hj _ Hct Ho. pose proof (offer_shape_not_transit _ Ho) as Hn. split; [|split; [|split; [|split]]].
+  - rewrite core_cons. destruct (is_tworking o); simpl; repeat constructor; auto.
+  - intros tr [<-|[]] En. exfalso. apply Hn; auto.
+  - intros tr [<-|[]] Hk. exfalso. destruct Ho as [[m [j ->]]|[t [j ->]]]; destruct Hk as [Hk|Hk]; discriminate.
+  - destruct (is_tworking o) eqn:Ew.
+    + exists [], [o]. split; [reflexivity|]. split; [intros tr []|intros tr [<-|[]]; exact Ew].
+    + exists [o], []. split; [reflexivity|]. split; [intros tr [<-|[]]; exact Ew|intros tr []].
+  - intros t st b k d jb t2 st2 oc2 H1 H2. exfalso. exact (dep_issued _ _ _ _ _ _ _ _ _ _ _ Hj H1 H2 Hct).
+Qed.
+
+
+(* ---------- every run satisfies both side conditions ---------- *)
+Theorem reach_side2 fuel x0 joker0 ta r m :
+  NO x0 -> J x0 -> BI x0 -> reach sigma i fuel x0 joker0 ta r m -> reachS2 sigma i fuel x0 joker0 ta r m.
+Proof.
+  intros N Hj Hb H.
+  destruct (reach_reachG sigma i Hnn J Q side2 (fun _ => offer_shape) BI J_apply J_now BI_end BI_now Q_timed Q_timed0 Q_offer offers_shape'
+              _ _ _ _ _ _ N Hj Hb H) as [A _]. exact A.
+Qed.
+
+Theorem reach_J fuel x0 joker0 ta r m :
+  NO x0 -> J x0 -> BI x0 -> reach sigma i fuel x0 joker0 ta r m ->
+  exists xq, NO xq /\ J xq /\ (r_x r = xq \/ (r_offers r = [] /\ exists z, r_x r = set_now xq z)).
+Proof.
+  intros N Hj Hb H.
+  destruct (reach_reachG sigma i Hnn J Q side2 (fun _ => offer_shape) BI J_apply J_now BI_end BI_now Q_timed Q_timed0 Q_offer offers_shape'
+              _ _ _ _ _ _ N Hj Hb H) as [_ [_ B]]. exact B.
+Qed.
+
+Theorem reach_micro_side2 fuel x0 joker0 ta r m a r' m' lg :
+  NO x0 -> J x0 -> BI x0 -> reach sigma i fuel x0 joker0 ta r m -> mw_step sigma i fuel r m a = MOk r' m' lg ->
+  forall tr y, In (tr, y) lg -> J y /\ side2 tr y = true.
+Proof.
+  intros N Hj Hb H Hm.
+  exact (reach_micro_J sigma i Hnn J Q side2 (fun _ => offer_shape) BI J_apply J_now BI_end BI_now Q_timed Q_timed0 Q_offer offers_shape'
+           _ _ _ _ _ _ _ _ _ _ N Hj Hb H Hm).
+Qed.
+
+(* ---------- the unconditional statements ---------- *)
+Lemma NODEP_in x ts : NODEP x -> In ts (s_trans x) -> no_dep (t_occ ts).
+Proof.
+  intros D Hin. apply In_nth_error in Hin. destruct Hin as [t Ht]. apply (D t (t_st ts) (t_occ ts) (t_job ts)). apply tc_of; auto.
+Qed.
+Lemma nodep_b_NODEP x : nodep_b x = true -> NODEP x.
+Proof.
+  intros H t st oc jb Htc. unfold tc in Htc. destruct (nth_error (s_trans x) t) as [ts|] eqn:E; [|discriminate].
+  simpl in Htc. inversion Htc; subst. pose proof (forallb_nth _ _ _ _ H E) as Q0. simpl in Q0.
+  destruct (t_occ ts); simpl; auto; discriminate.
+Qed.
+Lemma NODEP_nodep_b x : NODEP x -> nodep_b x = true.
+Proof.
+  intros D. unfold nodep_b. apply forallb_forall. intros ts Hin. pose proof (NODEP_in _ _ D Hin) as Q0.
+  destruct (t_occ ts); simpl in *; auto; destruct Q0.
+Qed.
+
+Lemma NODEP_BI x : NODEP x -> BI x.
+Proof. intros D t st b k d jb t2 st2 oc2 H1 _. destruct (D _ _ _ _ H1). Qed.
+
+Lemma J_init x0 : wfs_b i x0 = true -> fresh2_b i x0 = true -> nodep_b x0 = true -> J x0.
+Proof.
+  intros W Fr D. split; [apply WFS_complete; auto|]. split; [apply fresh2_INV; auto|apply NODEP_DEPI; apply nodep_b_NODEP; auto].
+Qed.
+
+Lemma BI_init x0 : nodep_b x0 = true -> BI x0.
+Proof. intros D. apply NODEP_BI. apply nodep_b_NODEP. auto. Qed.
+
+Lemma J_clauses x : J x -> feasible_b i x = true /\ mach_hold_b x = true /\ output_done_b i x = true.
+Proof.
+  intros [W [[F [A O]] D]]. split; [apply FE_feasible; auto|]. split; [apply FE_mach_hold with (i := i); auto|apply OD_output_done; auto].
+Qed.
+
+(* for EVERY instance: feasibility, a busy machine holds one job, a job in an output buffer is finished *)
+Theorem run_reachable fuel x0 joker0 ta r m :
+  clock_b x0 = true -> wfs_b i x0 = true -> fresh2_b i x0 = true -> nodep_b x0 = true ->
+  reach sigma i fuel x0 joker0 ta r m ->
+  feasible_b i (r_x r) = true /\ mach_hold_b (r_x r) = true /\ output_done_b i (r_x r) = true.
+Proof.
+  intros C W Fr D H. apply NO_iff_clock_b in C.
+  destruct (reach_J _ _ _ _ _ _ C (J_init _ W Fr D) (BI_init _ D) H) as [xq [Nq [Jq [E|[_ [z E]]]]]]; rewrite E.
+  - apply J_clauses; auto.
+  - exact (J_clauses _ Jq).
+Qed.
+
+Theorem run_micro_states fuel x0 joker0 ta r m a r' m' lg :
+  clock_b x0 = true -> wfs_b i x0 = true -> fresh2_b i x0 = true -> nodep_b x0 = true ->
+  reach sigma i fuel x0 joker0 ta r m -> mw_step sigma i fuel r m a = MOk r' m' lg ->
+  forall tr y, In (tr, y) lg ->
+    feasible_b i y = true /\ mach_hold_b y = true /\ output_done_b i y = true /\ side2 tr y = true.
+Proof.
+  intros C W Fr D H Hm tr y Hin. apply NO_iff_clock_b in C.
+  destruct (reach_micro_side2 _ _ _ _ _ _ _ _ _ _ C (J_init _ W Fr D) (BI_init _ D) H Hm _ _ Hin) as [Jy S].
+  destruct (J_clauses _ Jy) as [A [B C0]]. auto.
+Qed.
+
+Theorem run_terminated_all_done fuel x0 joker0 ta r m :
+  clock_b x0 = true -> wfs_b i x0 = true -> fresh2_b i x0 = true -> nodep_b x0 = true ->
+  reach sigma i fuel x0 joker0 ta r m ->
+  all_in_output i (r_x r) = true -> forallb all_operations_done (s_jobs (r_x r)) = true.
+Proof.
+  intros C W Fr D H Hout. destruct (run_reachable _ _ _ _ _ _ C W Fr D H) as [_ [_ Hod]].
+  unfold all_in_output in Hout. rewrite forallb_forall in *.
+  intros jb Hin. specialize (Hout jb Hin). apply andb_true_iff in Hout. tauto.
+Qed.
+
+(* ---------- instances whose machine post-buffers are unordered or of capacity one: no TimeDependency at all ---------- *)
+Section Flex.
+Hypothesis Hflex : flex_post_b i = true.
+
 Lemma waiting_time_no_dep x tr oc : WFS i x -> get_waiting_time i x tr = Ok oc -> no_dep oc.
 Proof.
   intros W H. unfold get_waiting_time in H.
@@ -121,317 +974,48 @@ Qed.
 Lemma NODEP_set_now x z : NODEP x -> NODEP (set_now x z).
 Proof. intros D t st oc jb H. rewrite tc_set_now in H. eauto. Qed.
 
-(* ---------- the batch invariant ---------- *)
-Definition is_tworking (tr : transition) : bool := match tr_new tr with NT TWorking => true | _ => false end.
-Definition core (R : list transition) : list transition := filter (fun tr => negb (is_tworking tr)) R.
-Definition comps (R : list transition) : list comp := map tr_comp R.
 
-Definition outside (L : bid) : Prop := (forall m, L <> BIn m) /\ (forall m, L <> BPre m) /\ (forall t, L <> BAgv t).
+Definition JF (x : state) : Prop := J x /\ NODEP x.
 
-Definition loc_fact (x : state) (R : list transition) (j : nat) : Prop :=
-  (exists L, jloc x j = Some L /\ outside L)
-  \/ (exists t0, jloc x j = Some (BAgv t0) /\ ~ In (CT t0) (comps (core R))).
-
-Definition pend (x : state) (R : list transition) (tr : transition) : Prop :=
-  tr_new tr = NT TTransit ->
-  exists t j oc, tr_comp tr = CT t /\ tr_job tr = Some j /\ tc x t = Some (TWaiting, oc, Some j) /\ loc_fact x R j.
-
-Definition Q (R : list transition) (x : state) : Prop :=
-  NoDup (comps (core R)) /\ forall tr, In tr R -> pend x R tr.
-
-Definition J (x : state) : Prop := WFS i x /\ INV i x /\ NODEP x.
-
-Lemma core_cons tr R : core (tr :: R) = if is_tworking tr then core R else tr :: core R.
-Proof. unfold core. simpl. destruct (is_tworking tr); reflexivity. Qed.
-
-Lemma in_core tr R : In tr R -> is_tworking tr = false -> In tr (core R).
-Proof. intros H E. unfold core. apply filter_In. split; auto. rewrite E. reflexivity. Qed.
-
-Lemma not_in_core_mono c tr R : ~ In c (comps (core (tr :: R))) -> ~ In c (comps (core R)).
-Proof. rewrite core_cons. destruct (is_tworking tr); simpl; tauto. Qed.
-
-Lemma NoDup_core_tail tr R : NoDup (comps (core (tr :: R))) -> NoDup (comps (core R)).
-Proof. rewrite core_cons. destruct (is_tworking tr); simpl; auto. intros H. inversion H; auto. Qed.
-
-(* the side conditions for the head of the batch, from its pending fact *)
-Lemma head_sides x tr R x' :
-  WFS i x -> FE i x -> pend x R tr -> apply_transition sigma i x tr = Ok x' -> side2 tr x' = true.
+Lemma JF_apply x tr R x' :
+  NO x -> JF x -> Q (tr :: R) x -> is_transition_valid x tr = Ok true -> apply_transition sigma i x tr = Ok x' ->
+  JF x' /\ Q R x' /\ side2 tr x' = true.
 Proof.
-  intros W F P H. unfold side2, transit_side_b, transit_claim_b.
-  destruct (tr_new tr) as [s|s] eqn:En; [destruct (tr_comp tr); reflexivity|].
-  destruct s; try (destruct (tr_comp tr); reflexivity).
-  destruct (P En) as [t [j [oc [Hc [Hj [Htc Hloc]]]]]].
-  unfold tc in Htc. destruct (nth_error (s_trans x) t) as [ts|] eqn:Hts; [|discriminate]. simpl in Htc. inversion Htc as [[E1 E2 E3]].
-  destruct (apply_transit_spec sigma i _ _ _ _ _ H Hc En Hts) as [j' [jb [jb' [ts' [Hj' [Hjb [Hjb' [Hops [Hts' Hjob]]]]]]]]].
-  rewrite Hj in Hj'. inversion Hj'; subst j'. rewrite Hj, Hc, Hjb', Hts'. rewrite Hjob, E3. simpl. rewrite Nat.eqb_refl, andb_true_r.
-  assert (Hrun : is_job_running jb = false).
-  { eapply (outside_not_running i); eauto. intros m Eq.
-    destruct Hloc as [[L [HL [O1 _]]]|[t0 [HL _]]]; rewrite (jloc_of _ _ _ Hjb), Eq in HL; inversion HL; subst.
-    apply (O1 m); reflexivity. }
-  unfold is_job_running in *. rewrite Hops, Hrun. reflexivity.
+  intros N [Hj Dn] HQ Hv Ha. destruct (J_apply _ _ _ _ N Hj HQ Hv Ha) as [A [B C0]].
+  split; [split; auto|auto]. destruct Hj as [W _]. eapply apply_preserves_NODEP; eauto.
 Qed.
 
-Lemma Q_step x tr R x' :
-  WFS i x -> Q (tr :: R) x -> apply_transition sigma i x tr = Ok x' -> Q R x'.
+Lemma JF_now x t : JF x -> (s_now x <= t)%Z -> JF (set_now x t).
+Proof. intros [Hj Dn] H. split; [apply J_now; auto|apply NODEP_set_now; auto]. Qed.
+
+Theorem flex_nodep fuel x0 joker0 ta r m :
+  clock_b x0 = true -> wfs_b i x0 = true -> fresh2_b i x0 = true -> nodep_b x0 = true ->
+  reach sigma i fuel x0 joker0 ta r m -> nodep_b (r_x r) = true.
 Proof.
-  intros W [ND HP] H. split; [eapply NoDup_core_tail; eauto|].
-  intros tr1 Hin En. destruct (HP tr1 (or_intror Hin) En) as [t [j [oc [Hc [Hj [Htc Hloc]]]]]].
-  assert (Hcore1 : In tr1 (core R)) by (apply in_core; auto; unfold is_tworking; rewrite En; reflexivity).
-  exists t, j, oc. split; auto. split; auto. split.
-  - (* the AGV's triple: the head is a transition of another component *)
-    rewrite (apply_tc_other sigma i _ _ _ t H); auto. intros Hc0.
-    destruct (is_tworking tr) eqn:Ew.
-    + (* a dispatch needs an idle AGV *)
-      unfold tc in Htc. destruct (nth_error (s_trans x) t) as [ts|] eqn:Hts; [|discriminate]. simpl in Htc. inversion Htc as [[E1 E2 E3]].
-      unfold is_tworking in Ew. destruct (tr_new tr) as [s|s] eqn:En0; [discriminate|]. destruct s; try discriminate.
-      destruct (apply_transport sigma i _ _ _ _ _ Hc0 Hts H) as [[E _]|[[_ [E _]]|[[_ [E _]]|[[_ [E _]]|[[_ [E _]]|[_ [E _]]]]]]];
-        try (rewrite En0 in E; discriminate). rewrite E1 in E. discriminate.
-    + rewrite core_cons, Ew in ND. simpl in ND. inversion ND as [|? ? Hnin _]. apply Hnin.
-      rewrite Hc0, <- Hc. apply in_map. exact Hcore1.
-  - (* the job's place *)
-    destruct (apply_loc_eff sigma i _ _ _ H j) as [Same|[A [B [a [Ha [Hina [HB Hk]]]]]]].
-    + destruct Hloc as [[L [HL O]]|[t0 [HL Hn]]].
-      * left. exists L. rewrite Same. auto.
-      * right. exists t0. rewrite Same. split; auto. eapply not_in_core_mono; eauto.
-    + pose proof (stored_loc _ _ _ _ W Ha Hina) as HA.
-      destruct Hloc as [[L [HL [O1 [O2 O3]]]]|[t0 [HL Hn]]]; rewrite HA in HL; inversion HL; subst.
-      * destruct Hk as [[m [_ [[E _]|[E _]]]]|[[t1 [Hc1 [Hn1 [_ [_ [-> _]]]]]]|[t1 [_ [_ E]]]]].
-        -- exfalso. apply (O2 m); auto.
-        -- exfalso. apply (O1 m); auto.
-        -- right. exists t1. split; auto.
-           assert (Ew : is_tworking tr = false) by (unfold is_tworking; rewrite Hn1; reflexivity).
-           rewrite core_cons, Ew in ND. simpl in ND. inversion ND as [|? ? Hnin _]. rewrite <- Hc1. exact Hnin.
-        -- exfalso. apply (O3 t1); auto.
-      * exfalso. destruct Hk as [[m [_ [[E _]|[E _]]]]|[[t1 [_ [_ [_ [_ [_ E]]]]]]|[t1 [Hc1 [Hn1 E]]]]]; try discriminate.
-        -- apply (E t0); reflexivity.
-        -- inversion E; subst t1. apply Hn. rewrite core_cons.
-           assert (Ew : is_tworking tr = false) by (unfold is_tworking; rewrite Hn1; reflexivity).
-           rewrite Ew. simpl. left. auto.
+  intros C W Fr D H. apply NO_iff_clock_b in C.
+  destruct (reach_reachG sigma i Hnn JF Q side2 (fun _ => offer_shape) BI JF_apply JF_now
+              (fun x Hj => BI_end x (proj1 Hj)) BI_now
+              (fun x timed poss tele N0 Hj => Q_timed x timed poss tele N0 (proj1 Hj))
+              (fun x timed N0 Hj => Q_timed0 x timed N0 (proj1 Hj))
+              (fun x o Hj => Q_offer x o (proj1 Hj)) offers_shape'
+              _ _ _ _ _ _ C (conj (J_init _ W Fr D) (nodep_b_NODEP _ D)) (BI_init _ D) H) as [_ [_ [xq [Nq [[_ Dq] [E|[_ [z E]]]]]]]]; rewrite E.
+  - apply NODEP_nodep_b; auto.
+  - exact (NODEP_nodep_b _ Dq).
 Qed.
 
-Theorem J_apply x tr R x' :
-  NO x -> J x -> Q (tr :: R) x -> is_transition_valid x tr = Ok true -> apply_transition sigma i x tr = Ok x' ->
-  J x' /\ Q R x' /\ side2 tr x' = true.
+Theorem flex_micro_nodep fuel x0 joker0 ta r m a r' m' lg :
+  clock_b x0 = true -> wfs_b i x0 = true -> fresh2_b i x0 = true -> nodep_b x0 = true ->
+  reach sigma i fuel x0 joker0 ta r m -> mw_step sigma i fuel r m a = MOk r' m' lg ->
+  forall tr y, In (tr, y) lg -> nodep_b y = true.
 Proof.
-  intros N [W [I D]] HQ Hv Ha.
-  assert (S : side2 tr x' = true).
-  { destruct I as [F _]. eapply head_sides; eauto. destruct HQ as [_ HP]. apply HP. left; reflexivity. }
-  split; [|split; [eapply Q_step; eauto|exact S]].
-  split; [eapply apply_preserves_WFS; eauto|]. split; [eapply INV_apply; eauto|eapply apply_preserves_NODEP; eauto].
-Qed.
-
-Lemma J_now x t : J x -> (s_now x <= t)%Z -> J (set_now x t).
-Proof.
-  intros [W [I D]] H. split; [apply WFS_set_now; auto|]. split; [apply INV_now; auto|apply NODEP_set_now; auto].
-Qed.
-
-(* ---------- the batch invariant holds where the simulator creates its transitions ---------- *)
-Lemma NoDup_map_filter {A B} (f : A -> B) (p : A -> bool) l : NoDup (map f l) -> NoDup (map f (filter p l)).
-Proof.
-  induction l as [|a r IH]; simpl; intros H; [constructor|]. inversion H as [|? ? Hn Hr]; subst.
-  destruct (p a); simpl; auto. constructor; auto. intros Hin. apply Hn.
-  apply in_map_iff in Hin. destruct Hin as [y [E Hy]]. apply filter_In in Hy. rewrite <- E. apply in_map. tauto.
-Qed.
-
-Lemma timed_machines_comps now : forall l m r,
-  timed_machines_from i now m l = Ok r ->
-  (forall tr, In tr r -> (exists k, tr_comp tr = CM k /\ m <= k) /\ exists s, tr_new tr = NM s) /\ NoDup (comps r).
-Proof.
-  induction l as [|ms l IH]; intros m r H; simpl in H.
-  - inversion H; subst. split; [intros tr []|constructor].
-  - destruct (timed_machine i now m ms) as [o|] eqn:Eo; simpl in H; [|discriminate].
-    destruct (timed_machines_from i now (S m) l) as [rest|] eqn:Er; simpl in H; [|discriminate].
-    destruct (IH _ _ Er) as [A B]. inversion H; subst; clear H.
-    destruct o as [tr0|]; [|split; [intros tr Hin; destruct (A tr Hin) as [[k [E1 E2]] S]; split; auto; exists k; split; auto; lia|exact B]].
-    assert (Hc : tr_comp tr0 = CM m /\ exists s, tr_new tr0 = NM s).
-    { destruct (timed_machine_spec i _ _ _ _ Eo) as [[z [j [_ [_ [_ [Hc [_ Hs]]]]]]]|[c [j [_ [_ [_ ->]]]]]].
-      - split; auto. destruct Hs as [[_ ->]|[[_ ->]|[_ ->]]]; eauto.
-      - simpl. eauto. }
-    destruct Hc as [Hc Hs]. split.
-    + intros tr [<-|Hin]; [split; auto; exists m; auto|]. destruct (A tr Hin) as [[k [E1 E2]] S]. split; auto. exists k; split; auto; lia.
-    + simpl. constructor; auto. intros Hin. apply in_map_iff in Hin. destruct Hin as [tr [E Hin]].
-      destruct (A tr Hin) as [[k [E1 E2]] _]. rewrite Hc, E1 in E. inversion E. lia.
-Qed.
-
-Lemma timed_transport_shape x t ts l :
-  timed_transport i x t ts = Ok l -> no_dep (t_occ ts) ->
-  l = [] \/ exists tr z, l = [tr] /\ tr_comp tr = CT t /\ t_occ ts = OAt z.
-Proof.
-  unfold timed_transport. intros H D. destruct (t_occ ts) as [|z|b k d] eqn:Eo; [inversion H; auto| |destruct D].
-  destruct (z <=? s_now x)%Z; [|inversion H; auto].
-  match type of H with bind ?e _ = _ => destruct e as [o|] eqn:Ec; simpl in H; [|discriminate] end.
-  inversion H; subst; clear H. destruct o as [tr|]; [|auto]. right. exists tr, z. split; auto. split; auto.
-  destruct (t_st ts) eqn:Es; try discriminate.
-  - unfold create_idle_to_pick in Ec. rewrite Es in Ec. inv_all Ec; inversion Ec; subst; reflexivity.
-  - unfold create_pickup_to_drop in Ec. destruct (b_store (t_buf ts)) as [|j0 [|]]; try discriminate.
-    inv_all Ec. inversion Ec; subst; reflexivity.
-  - inversion Ec; subst; reflexivity.
-  - unfold create_idle_to_pick in Ec. rewrite Es in Ec. inv_all Ec; inversion Ec; subst; reflexivity.
-Qed.
-
-Lemma timed_transports_comps x : forall l t r,
-  (forall ts, In ts l -> no_dep (t_occ ts)) ->
-  timed_transports_from i x t l = Ok r ->
-  (forall tr, In tr r -> exists k ts lk z, nth_error l k = Some ts /\ timed_transport i x (t + k) ts = Ok lk /\ lk = [tr]
-                                        /\ tr_comp tr = CT (t + k) /\ t_occ ts = OAt z)
-  /\ NoDup (comps r).
-Proof.
-  induction l as [|ts l IH]; intros t r D H; simpl in H.
-  - inversion H; subst. split; [intros tr []|constructor].
-  - destruct (timed_transport i x t ts) as [a|] eqn:Ea; simpl in H; [|discriminate].
-    destruct (timed_transports_from i x (S t) l) as [rest|] eqn:Er; simpl in H; [|discriminate].
-    destruct (IH _ _ (fun ts0 Hin => D ts0 (or_intror Hin)) Er) as [A B]. inversion H; subst; clear H.
-    assert (Arest : forall tr, In tr rest -> exists k ts0 lk z, nth_error (ts :: l) k = Some ts0
-              /\ timed_transport i x (t + k) ts0 = Ok lk /\ lk = [tr] /\ tr_comp tr = CT (t + k) /\ t_occ ts0 = OAt z).
-    { intros tr Hin. destruct (A tr Hin) as [k [ts0 [lk [z [H1 [H2 [H3 [H4 H5]]]]]]]].
-      exists (S k), ts0, lk, z. replace (t + S k) with (S t + k) by lia. simpl. auto. }
-    destruct (timed_transport_shape _ _ _ _ Ea (D ts (or_introl eq_refl))) as [->|[tr0 [z [-> [Hc Ho]]]]]; simpl.
-    + split; auto.
-    + split.
-      * intros tr [<-|Hin]; [|auto]. exists 0, ts, [tr0], z. rewrite Nat.add_0_r. simpl. auto.
-      * constructor; auto. intros Hin. apply in_map_iff in Hin. destruct Hin as [tr [E Hin]].
-        destruct (A tr Hin) as [k [_ [_ [_ [_ [_ [_ [E1 _]]]]]]]]. rewrite Hc, E1 in E. inversion E. lia.
-Qed.
-
-Lemma is_ready_outside x j jb : is_ready i x j jb = Ok true -> outside (j_loc jb).
-Proof.
-  unfold is_ready. intros H. inv_all H. inversion H as [Hb]. apply andb_true_iff in Hb. destruct Hb as [Hb _].
-  destruct (j_loc jb); try discriminate; repeat split; intros; discriminate.
-Qed.
-
-Lemma NODEP_in x ts : NODEP x -> In ts (s_trans x) -> no_dep (t_occ ts).
-Proof.
-  intros D Hin. apply In_nth_error in Hin. destruct Hin as [t Ht]. apply (D t (t_st ts) (t_occ ts) (t_job ts)). apply tc_of; auto.
-Qed.
-
-Theorem Q_created x timed tele :
-  J x -> create_timed_transitions i x = Ok timed -> Forall (fun tr => is_tworking tr = true) tele -> Q (timed ++ tele) x.
-Proof.
-  intros [W [[F _] D]] H Ht. unfold create_timed_transitions in H.
-  destruct (create_timed_machine_transitions i x) as [a|] eqn:Ea; simpl in H; [|discriminate].
-  destruct (create_timed_transport_transitions i x) as [b|] eqn:Eb; simpl in H; [|discriminate].
-  inversion H; subst; clear H.
-  destruct (timed_machines_comps _ _ _ _ Ea) as [A1 A2].
-  destruct (timed_transports_comps x _ _ _ (fun ts Hin => NODEP_in _ _ D Hin) Eb) as [B1 B2].
-  assert (Hcore : core ((a ++ b) ++ tele) = core (a ++ b)).
-  { unfold core. rewrite filter_app. rewrite Forall_forall in Ht.
-    assert (E : filter (fun tr => negb (is_tworking tr)) tele = []).
-    { clear -Ht. induction tele as [|h r IH]; simpl; auto. rewrite (Ht h (or_introl eq_refl)). simpl. apply IH. intros y Hy. apply Ht. right; auto. }
-    rewrite E, app_nil_r. reflexivity. }
-  split.
-  - rewrite Hcore. unfold core, comps. apply NoDup_map_filter. rewrite map_app. apply NoDup_app; auto.
-    intros c Hc1 Hc2. apply in_map_iff in Hc1, Hc2. destruct Hc1 as [t1 [E1 I1]]. destruct Hc2 as [t2 [E2 I2]].
-    destruct (A1 _ I1) as [[k [Hk _]] _]. destruct (B1 _ I2) as [k2 [_ [_ [_ [_ [_ [_ [Hk2 _]]]]]]]]. congruence.
-  - intros tr Hin En. apply in_app_iff in Hin. destruct Hin as [Hin|Hin].
-    + apply in_app_iff in Hin. destruct Hin as [Hin|Hin].
-      * destruct (A1 _ Hin) as [_ [s Hs]]. congruence.
-      * destruct (B1 _ Hin) as [k [ts [lk [z [Hts [Htt [-> [Hc Ho]]]]]]]]. simpl in Htt, Hc.
-        destruct (timed_transit_spec i _ _ _ _ _ Ho Htt En) as [Hst [j [jb [-> [Hj [Hjb Hr]]]]]].
-        exists k, j, (t_occ ts). simpl. split; auto. split; auto. split.
-        -- rewrite (tc_of _ _ _ Hts), Hst, Hj. reflexivity.
-        -- left. exists (j_loc jb). split; [apply jloc_of; auto|eapply is_ready_outside; eauto].
-    + rewrite Forall_forall in Ht. specialize (Ht _ Hin). unfold is_tworking in Ht. rewrite En in Ht. discriminate.
-Qed.
-
-Lemma teleport_pick_in fuel : forall l a, In a (teleport_pick fuel l) -> In a l.
-Proof.
-  induction fuel as [|f IH]; intros l a H; simpl in H; [destruct H|].
-  destruct l as [|h r]; [destruct H|]. destruct H as [<-|H]; [left; reflexivity|].
-  apply IH in H. apply filter_In in H. tauto.
-Qed.
-
-Lemma offers_shape x offers tr :
-  get_possible_transitions i x = Ok offers -> In tr offers ->
-  (exists m j, tr = mkTr (CM m) (NM MSetup) (Some j)) \/ (exists t j, tr = mkTr (CT t) (NT TWorking) (Some j)).
-Proof.
-  unfold get_possible_transitions. intros H Hin.
-  destruct (filterM _ _) as [pj|] eqn:E1 in H; simpl in H; [|discriminate].
-  destruct (get_possible_transport_transition i x) as [pt|] eqn:E2; simpl in H; [|discriminate].
-  destruct (mapM _ pj) as [mt|] eqn:E3 in H; simpl in H; [|discriminate].
-  inversion H; subst; clear H. apply in_app_iff in Hin. destruct Hin as [Hin|Hin].
-  - left. destruct (mapM_in' _ _ _ _ E3 Hin) as [[j jb] [Hp Hf]]. simpl in Hf. inv_all Hf. inversion Hf; subst. eauto.
-  - right. destruct (transport_offers_spec i _ _ _ E2 Hin) as [t [ts [j [jb [-> _]]]]]. eauto.
-Qed.
-
-Lemma offers_not_transit x offers : get_possible_transitions i x = Ok offers -> Forall not_transit offers.
-Proof.
-  intros H. apply Forall_forall. intros tr Hin. unfold not_transit.
-  destruct (offers_shape _ _ _ H Hin) as [[m [j ->]]|[t [j ->]]]; simpl; discriminate.
-Qed.
-
-Lemma tele_tworking x poss tele :
-  get_possible_transitions i x = Ok poss -> filter_teleport i x poss = Ok tele -> Forall (fun tr => is_tworking tr = true) tele.
-Proof.
-  intros Hp H. unfold filter_teleport in H.
-  match type of H with bind ?e _ = _ => destruct e as [tl|] eqn:Ef; simpl in H; [|discriminate] end.
-  inversion H; subst; clear H. apply Forall_forall. intros tr Hin. apply teleport_pick_in in Hin.
-  destruct (filterM_in _ _ _ _ Ef Hin) as [Hi Hf].
-  destruct (offers_shape _ _ _ Hp Hi) as [[m [j ->]]|[t [j ->]]]; [|reflexivity].
-  simpl in Hf. destruct (travel_time_for_transport i x (Some j)); simpl in Hf; [inversion Hf|discriminate].
-Qed.
-
-Lemma Q_timed x timed poss tele : NO x -> J x -> create_timed_transitions i x = Ok timed ->
-  get_possible_transitions i x = Ok poss -> filter_teleport i x poss = Ok tele -> Q (timed ++ tele) x.
-Proof. intros _ Hj H Hp Hf. eapply Q_created; eauto. eapply tele_tworking; eauto. Qed.
-
-Lemma Q_timed0 x timed : NO x -> J x -> create_timed_transitions i x = Ok timed -> Q timed x.
-Proof. intros _ Hj H. rewrite <- (app_nil_r timed). eapply Q_created; eauto. Qed.
-
-Lemma Q_offer x o : J x -> not_transit o -> Q [o] x.
-Proof.
-  intros _ Hn. split.
-  - rewrite core_cons. destruct (is_tworking o); simpl; repeat constructor; auto.
-  - intros tr [<-|[]] En. exfalso. apply Hn; auto.
-Qed.
-
-(* ---------- every run satisfies both side conditions ---------- *)
-Theorem reach_side2 fuel x0 joker0 ta r m :
-  NO x0 -> J x0 -> reach sigma i fuel x0 joker0 ta r m -> reachS2 sigma i fuel x0 joker0 ta r m.
-Proof.
-  intros N Hj H.
-  destruct (reach_reachG sigma i Hnn J Q side2 (fun _ => not_transit) J_apply J_now Q_timed Q_timed0 Q_offer offers_not_transit _ _ _ _ _ _ N Hj H)
-    as [A _]. exact A.
-Qed.
-
-Theorem reach_J fuel x0 joker0 ta r m :
-  NO x0 -> J x0 -> reach sigma i fuel x0 joker0 ta r m ->
-  exists xq, NO xq /\ J xq /\ (r_x r = xq \/ (r_offers r = [] /\ exists z, r_x r = set_now xq z)).
-Proof.
-  intros N Hj H.
-  destruct (reach_reachG sigma i Hnn J Q side2 (fun _ => not_transit) J_apply J_now Q_timed Q_timed0 Q_offer offers_not_transit _ _ _ _ _ _ N Hj H)
-    as [_ [_ B]]. exact B.
-Qed.
-
-Theorem reach_micro_side2 fuel x0 joker0 ta r m a r' m' lg :
-  NO x0 -> J x0 -> reach sigma i fuel x0 joker0 ta r m -> mw_step sigma i fuel r m a = MOk r' m' lg ->
-  forall tr y, In (tr, y) lg -> J y /\ side2 tr y = true.
-Proof.
-  intros N Hj H Hm.
-  exact (reach_micro_J sigma i Hnn J Q side2 (fun _ => not_transit) J_apply J_now Q_timed Q_timed0 Q_offer offers_not_transit _ _ _ _ _ _ _ _ _ _ N Hj H Hm).
-Qed.
-
-(* ---------- the unconditional statements ---------- *)
-Lemma nodep_b_NODEP x : nodep_b x = true -> NODEP x.
-Proof.
-  intros H t st oc jb Htc. unfold tc in Htc. destruct (nth_error (s_trans x) t) as [ts|] eqn:E; [|discriminate].
-  simpl in Htc. inversion Htc; subst. pose proof (forallb_nth _ _ _ _ H E) as Q0. simpl in Q0.
-  destruct (t_occ ts); simpl; auto; discriminate.
-Qed.
-Lemma NODEP_nodep_b x : NODEP x -> nodep_b x = true.
-Proof.
-  intros D. unfold nodep_b. apply forallb_forall. intros ts Hin. pose proof (NODEP_in _ _ D Hin) as Q0.
-  destruct (t_occ ts); simpl in *; auto; destruct Q0.
-Qed.
-
-Lemma J_init x0 : wfs_b i x0 = true -> fresh2_b i x0 = true -> nodep_b x0 = true -> J x0.
-Proof.
-  intros W Fr D. split; [apply WFS_complete; auto|]. split; [apply fresh2_INV; auto|apply nodep_b_NODEP; auto].
-Qed.
-
-Lemma J_clauses x : J x -> feasible_b i x = true /\ mach_hold_b x = true /\ output_done_b i x = true /\ nodep_b x = true.
-Proof.
-  intros [W [[F [A O]] D]]. split; [apply FE_feasible; auto|]. split; [apply FE_mach_hold with (i := i); auto|].
-  split; [apply OD_output_done; auto|apply NODEP_nodep_b; auto].
+  intros C W Fr D H Hm tr y Hin. apply NO_iff_clock_b in C.
+  destruct (reach_micro_J sigma i Hnn JF Q side2 (fun _ => offer_shape) BI JF_apply JF_now
+              (fun x Hj => BI_end x (proj1 Hj)) BI_now
+              (fun x timed poss tele N0 Hj => Q_timed x timed poss tele N0 (proj1 Hj))
+              (fun x timed N0 Hj => Q_timed0 x timed N0 (proj1 Hj))
+              (fun x o Hj => Q_offer x o (proj1 Hj)) offers_shape'
+              _ _ _ _ _ _ _ _ _ _ C (conj (J_init _ W Fr D) (nodep_b_NODEP _ D)) (BI_init _ D) H Hm _ _ Hin) as [[_ Dy] _].
+  apply NODEP_nodep_b; auto.
 Qed.
 
 Theorem flex_reachable fuel x0 joker0 ta r m :
@@ -439,10 +1023,8 @@ Theorem flex_reachable fuel x0 joker0 ta r m :
   reach sigma i fuel x0 joker0 ta r m ->
   feasible_b i (r_x r) = true /\ mach_hold_b (r_x r) = true /\ output_done_b i (r_x r) = true /\ nodep_b (r_x r) = true.
 Proof.
-  intros C W Fr D H. apply NO_iff_clock_b in C.
-  destruct (reach_J _ _ _ _ _ _ C (J_init _ W Fr D) H) as [xq [Nq [Jq [E|[_ [z E]]]]]]; rewrite E.
-  - apply J_clauses; auto.
-  - exact (J_clauses _ Jq).
+  intros C W Fr D H. destruct (run_reachable _ _ _ _ _ _ C W Fr D H) as [A [B C0]].
+  split; auto. split; auto. split; auto. eapply flex_nodep; eauto.
 Qed.
 
 Theorem flex_micro_states fuel x0 joker0 ta r m a r' m' lg :
@@ -451,19 +1033,16 @@ Theorem flex_micro_states fuel x0 joker0 ta r m a r' m' lg :
   forall tr y, In (tr, y) lg ->
     feasible_b i y = true /\ mach_hold_b y = true /\ output_done_b i y = true /\ nodep_b y = true /\ side2 tr y = true.
 Proof.
-  intros C W Fr D H Hm tr y Hin. apply NO_iff_clock_b in C.
-  destruct (reach_micro_side2 _ _ _ _ _ _ _ _ _ _ C (J_init _ W Fr D) H Hm _ _ Hin) as [Jy S].
-  destruct (J_clauses _ Jy) as [A [B [C0 D0]]]. auto.
+  intros C W Fr D H Hm tr y Hin. destruct (run_micro_states _ _ _ _ _ _ _ _ _ _ C W Fr D H Hm _ _ Hin) as [A [B [C0 S]]].
+  split; auto. split; auto. split; auto. split; auto. eapply flex_micro_nodep; eauto.
 Qed.
 
 Theorem flex_terminated_all_done fuel x0 joker0 ta r m :
   clock_b x0 = true -> wfs_b i x0 = true -> fresh2_b i x0 = true -> nodep_b x0 = true ->
   reach sigma i fuel x0 joker0 ta r m ->
   all_in_output i (r_x r) = true -> forallb all_operations_done (s_jobs (r_x r)) = true.
-Proof.
-  intros C W Fr D H Hout. destruct (flex_reachable _ _ _ _ _ _ C W Fr D H) as [_ [_ [Hod _]]].
-  unfold all_in_output in Hout. rewrite forallb_forall in *.
-  intros jb Hin. specialize (Hout jb Hin). apply andb_true_iff in Hout. tauto.
-Qed.
+Proof. apply run_terminated_all_done. Qed.
+
+End Flex.
 
 End PB.
